@@ -189,15 +189,1362 @@ Proof. induction 1; cbn; congruence. Qed.
 
 Lemma child_trait_ok g nt t :
   traits g <> [] -> length nt = length (traits g) -> tref_ok g t ->
-  exists id, child_trait g nt t = Ok (Some id).
+  exists id, child_trait g nt t = Ok (Some id) /\ In id (map t_id nt).
 Proof.
   intros Hne Hlen Ht. unfold child_trait.
   destruct (traits g) as [|t0 ts] eqn:E; [congruence|].
   assert (Hb : tbase g = t_id t0) by (unfold tbase; now rewrite E).
   destruct t as [id|]; cbn [tref_ok] in Ht.
   - change (idx (t0 :: ts) 0) with (Ok t0). cbn [bind].
-    destruct (idx_ok nt (id - t_id t0)) as [tr [-> _]]; [|cbn; eauto].
+    destruct (idx_ok nt (id - t_id t0)) as [tr [-> Hn]];
+      [|cbn; eexists; split; [reflexivity|]; apply in_map; eapply nth_error_In; exact Hn].
     unfold zlen in *. rewrite Hlen. rewrite E in Ht. lia.
-  - cbn [bind]. destruct (idx_ok nt 0) as [tr [-> _]]; [|cbn; eauto].
+  - cbn [bind]. destruct (idx_ok nt 0) as [tr [-> Hn]];
+      [|cbn; eexists; split; [reflexivity|]; apply in_map; eapply nth_error_In; exact Hn].
     unfold zlen. rewrite Hlen. cbn. lia.
 Qed.
+
+(* ------------------------------------------------------------------------------------------ *)
+(* 5. the accumulator invariant and the shared tail add_chosen                                  *)
+(* ------------------------------------------------------------------------------------------ *)
+Definition kin (x y : gene) : Prop :=
+  g_innov y = g_innov x /\ g_in y = g_in x /\ g_out y = g_out x /\ g_rec y = g_rec x.
+Definition copyof (x y : gene) : Prop := kin x y /\ g_w y = g_w x /\ g_en y = g_en x.
+
+Definition fmean (a b : float) : float := PrimFloat.div (PrimFloat.add a b) 2%float.
+
+(* the gene add_chosen builds from a chosen gene *)
+Definition built (c : cgene) (dis : bool) (y : gene) : Prop :=
+  g_in y = n_id (cg_inn c) /\ g_out y = n_id (cg_outn c) /\ g_rec y = g_rec (cg c) /\
+  g_w y = g_w (cg c) /\ g_innov y = g_innov (cg c) /\ g_en y = (if dis then false else g_en (cg c)).
+
+(* trait references of the child point into the child's traits *)
+Definition ntr_ok (nt : list trait) (n : node) : Prop := exists t, n_trait n = Some t /\ In t (map t_id nt).
+Definition gtr_ok (nt : list trait) (y : gene) : Prop := exists t, g_trait y = Some t /\ In t (map t_id nt).
+
+Section Acc.
+  (* [g]: first parent of the call (origin of trait indices); [A] owns the first gene list of the
+     loop, [B] the second; [ns0]: the io nodes copied first *)
+  Variables (g : genome) (nt : list trait) (A B : genome) (ns0 : list node).
+  Variables (allow1 allow2 : Prop) (W : gene -> gene -> gene -> Prop).
+
+  Record ctx_ok : Prop := {
+    c_tne : traits g <> [];
+    c_nt : length nt = length (traits g);
+    c_A : parent_ok g A;
+    c_B : parent_ok g B;
+    c_cons : consistent A B
+  }.
+  Hypothesis Hctx : ctx_ok.
+
+  Definition prov (y : gene) : Prop :=
+    (exists x, In x (genes A) /\ allow1 /\ copyof x y) \/
+    (exists x, In x (genes B) /\ allow2 /\ copyof x y) \/
+    (exists x1 x2, In x1 (genes A) /\ In x2 (genes B) /\ g_innov x1 = g_innov x2 /\ kin x1 y /\ W x1 x2 y).
+
+  Definition pnode (n : node) : Prop := In n (nodes A) \/ In n (nodes B).
+  Definition nsrc (n : node) : Prop :=
+    exists m, pnode m /\ n_id m = n_id n /\ n_type m = n_type n /\ n_act m = n_act n.
+  Definition touched (gs : list gene) (id : Z) : Prop :=
+    exists y, In y gs /\ (id = g_in y \/ id = g_out y).
+
+  Record ninv (ns : list node) (gs : list gene) : Prop := {
+    ni_asc : asc n_id ns;
+    ni_src : forall n, In n ns -> In n ns0 \/ (nsrc n /\ touched gs (n_id n));
+    ni_io : incl ns0 ns;
+    ni_ends : forall y, In y gs -> In (g_in y) (map n_id ns) /\ In (g_out y) (map n_id ns);
+    ni_ntr : forall n, In n ns -> ntr_ok nt n;
+    ni_gtr : forall y, In y gs -> gtr_ok nt y;
+    ni_linj : link_inj gs
+  }.
+
+  Definition cok (c : cgene) : Prop :=
+    pnode (cg_inn c) /\ pnode (cg_outn c) /\ tref_ok g (g_trait (cg c)) /\
+    g_in (cg c) = n_id (cg_inn c) /\ g_out (cg c) = n_id (cg_outn c).
+
+  Definition chosen_for (x : gene) (c : cgene) : Prop :=
+    cok c /\ n_id (cg_inn c) = g_in x /\ n_id (cg_outn c) = g_out x /\
+    g_in (cg c) = g_in x /\ g_out (cg c) = g_out x /\ g_rec (cg c) = g_rec x /\
+    g_innov (cg c) = g_innov x.
+
+  Lemma pnode_tref n : pnode n -> tref_ok g (n_trait n).
+  Proof. intros [H|H]; [apply (po_tn _ _ (c_A Hctx)) | apply (po_tn _ _ (c_B Hctx))]; exact H. Qed.
+
+  Lemma child_node_props ns n :
+    asc n_id ns -> tref_ok g (n_trait n) ->
+    exists ns', child_node g nt ns n = Ok ns' /\ asc n_id ns' /\ incl ns ns' /\
+                In (n_id n) (map n_id ns') /\
+                (forall m, In m ns' -> In m ns \/
+                                       (n_id m = n_id n /\ n_type m = n_type n /\ n_act m = n_act n /\ ntr_ok nt m)).
+  Proof.
+    intros Hs Ht. unfold child_node. destruct (node_with_id (n_id n) ns) as [m|] eqn:E.
+    - exists ns. repeat split; auto using incl_refl.
+      apply nwi_In in E. destruct E as [Hin Hid]. rewrite <- Hid. now apply in_map.
+    - destruct (child_trait_ok g nt (n_trait n) (c_tne Hctx) (c_nt Hctx) Ht) as [id [-> Hid]]. cbn [bind].
+      eexists. split; [reflexivity|]. apply nwi_none in E. repeat split.
+      + apply insert_sorted_asc; [exact Hs|exact E].
+      + intros m Hm. apply insert_sorted_In. now right.
+      + apply in_map_iff. eexists. split; [|apply insert_sorted_In; left; reflexivity]. reflexivity.
+      + intros m Hm. apply insert_sorted_In in Hm. destruct Hm as [->|Hm]; [right; cbn|now left].
+        repeat split; auto. exists id. cbn. auto.
+  Qed.
+
+  Lemma touched_mono gs gs' id : incl gs gs' -> touched gs id -> touched gs' id.
+  Proof. intros Hi [y [Hy H]]. exists y. split; [now apply Hi|exact H]. Qed.
+
+  Lemma add_chosen_spec ns gs c dis :
+    ninv ns gs -> cok c ->
+    exists ns' gs', add_chosen g nt (ns, gs) c dis = Ok (ns', gs') /\
+      ((existsb (fun y => same_link y (cg c)) gs = true /\ ns' = ns /\ gs' = gs) \/
+       (existsb (fun y => same_link y (cg c)) gs = false /\
+        exists y, gs' = gs ++ [y] /\ built c dis y /\ ninv ns' gs')).
+  Proof.
+    intros Hinv [Hpi [Hpo [Htr [Ein Eout]]]]. unfold add_chosen.
+    destruct (existsb _ gs) eqn:Eex; [exists ns, gs; split; [reflexivity|left; auto]|].
+    destruct (child_node_props ns (cg_inn c) (ni_asc _ _ Hinv) (pnode_tref _ Hpi))
+      as [ns1 [-> [Hs1 [Hi1 [Hin1 Hsrc1]]]]]. cbn [bind].
+    destruct (child_node_props ns1 (cg_outn c) Hs1 (pnode_tref _ Hpo))
+      as [ns2 [-> [Hs2 [Hi2 [Hin2 Hsrc2]]]]]. cbn [bind].
+    destruct (child_trait_ok g nt _ (c_tne Hctx) (c_nt Hctx) Htr) as [tid [-> Htid]]. cbn [bind].
+    eexists. eexists. split; [reflexivity|]. right. split; [reflexivity|].
+    eexists. split; [reflexivity|]. split; [unfold built; cbn; auto 10|].
+    assert (Hmap : forall l l' : list node, incl l l' -> incl (map n_id l) (map n_id l')).
+    { intros l l' Hl id Hid. apply in_map_iff in Hid. destruct Hid as [m [<- Hm]]. apply in_map. now apply Hl. }
+    match goal with |- ninv _ (gs ++ [?y0]) => set (y := y0) end.
+    assert (Hnl : forall z, In z gs -> same_link z y = false /\ same_link y z = false).
+    { intros z Hz. destruct (same_link z (cg c)) eqn:Ez.
+      - assert (existsb (fun y => same_link y (cg c)) gs = true) by (apply existsb_exists; eauto). congruence.
+      - unfold same_link in *. cbn. rewrite <- Ein, <- Eout. split; [exact Ez|].
+        rewrite (Z.eqb_sym (g_in (cg c))), (Z.eqb_sym (g_out (cg c))).
+        replace (Bool.eqb (g_rec (cg c)) (g_rec z)) with (Bool.eqb (g_rec z) (g_rec (cg c))); [exact Ez|].
+        destruct (g_rec z), (g_rec (cg c)); reflexivity. }
+    constructor.
+    - exact Hs2.
+    - intros m Hm. apply Hsrc2 in Hm. destruct Hm as [Hm|[E1 [E2 [E3 _]]]].
+      + apply Hsrc1 in Hm. destruct Hm as [Hm|[E1 [E2 [E3 _]]]].
+        * destruct (ni_src _ _ Hinv m Hm) as [H0|[Hn Ht]]; [now left|right]. split; [exact Hn|].
+          eapply touched_mono; [|exact Ht]. intros z Hz. apply in_or_app. now left.
+        * right. split; [exists (cg_inn c); auto|].
+          exists y. split; [apply in_or_app; right; left; reflexivity|]. cbn. left. exact E1.
+      + right. split; [exists (cg_outn c); auto|].
+        exists y. split; [apply in_or_app; right; left; reflexivity|]. cbn. right. exact E1.
+    - intros m Hm. apply Hi2, Hi1, (ni_io _ _ Hinv), Hm.
+    - intros z Hz. apply in_app_or in Hz. destruct Hz as [Hz|[<-|[]]].
+      + destruct (ni_ends _ _ Hinv z Hz) as [Ha Hb].
+        split; [apply (Hmap ns ns2); [|exact Ha] | apply (Hmap ns ns2); [|exact Hb]]; intros u Hu; apply Hi2, Hi1, Hu.
+      + cbn. split; [|exact Hin2]. eapply Hmap; [exact Hi2|exact Hin1].
+    - intros m Hm. apply Hsrc2 in Hm. destruct Hm as [Hm|[_ [_ [_ Ht]]]]; [|exact Ht].
+      apply Hsrc1 in Hm. destruct Hm as [Hm|[_ [_ [_ Ht]]]]; [|exact Ht]. now apply (ni_ntr _ _ Hinv).
+    - intros z Hz. apply in_app_or in Hz. destruct Hz as [Hz|[<-|[]]]; [now apply (ni_gtr _ _ Hinv)|].
+      exists tid. cbn. auto.
+    - intros u v Hu Hv Huv. apply in_app_or in Hu. apply in_app_or in Hv.
+      destruct Hu as [Hu|[<-|[]]], Hv as [Hv|[<-|[]]].
+      + now apply (ni_linj _ _ Hinv).
+      + destruct (Hnl u Hu). congruence.
+      + destruct (Hnl v Hv). congruence.
+      + reflexivity.
+  Qed.
+
+  (* what one loop step leaves behind, relative to the gene [x] it looked at *)
+  Definition allprov (gs : list gene) : Prop := forall y, In y gs -> prov y.
+  Definition below (gs : list gene) (k : Z) : Prop := forall y, In y gs -> g_innov y < k.
+
+  Definition stepQ (gs : list gene) (x : gene) (acc' : list node * list gene) : Prop :=
+    ninv (fst acc') (snd acc') /\ allprov (snd acc') /\ asc g_innov (snd acc') /\ incl gs (snd acc') /\
+    (forall y, In y (snd acc') -> g_innov y <= g_innov x).
+
+  Lemma stepQ_skip ns gs x :
+    ninv ns gs -> allprov gs -> asc g_innov gs -> below gs (g_innov x) -> stepQ gs x (ns, gs).
+  Proof.
+    intros H1 H2 H3 H4. unfold stepQ. cbn [fst snd].
+    split; [exact H1|]. split; [exact H2|]. split; [exact H3|]. split; [apply incl_refl|].
+    intros y Hy. specialize (H4 y Hy). lia.
+  Qed.
+
+  Lemma add_step ns gs c dis x :
+    ninv ns gs -> allprov gs -> asc g_innov gs -> below gs (g_innov x) ->
+    chosen_for x c -> (forall y, built c dis y -> prov y) ->
+    exists acc', add_chosen g nt (ns, gs) c dis = Ok acc' /\ stepQ gs x acc' /\
+      (existsb (fun y => same_link y (cg c)) gs = false -> exists y, In y (snd acc') /\ built c dis y).
+  Proof.
+    intros Hinv Hprov Hasc Hbel [Hcok [_ [_ [_ [_ [_ Hinn]]]]]] Hb.
+    destruct (add_chosen_spec ns gs c dis Hinv Hcok) as [ns' [gs' [E [[Eex [-> ->]]|[Eex [y [-> [Hy Hinv']]]]]]]].
+    - exists (ns, gs). split; [exact E|]. split; [now apply stepQ_skip|]. congruence.
+    - eexists. split; [exact E|]. cbn [fst snd].
+      assert (Hyi : g_innov y = g_innov x) by (destruct Hy as [_ [_ [_ [_ [Hy _]]]]]; congruence).
+      split; [|intros _; exists y; split; [apply in_or_app; right; now left|exact Hy]].
+      unfold stepQ. cbn [fst snd]. split; [exact Hinv'|]. repeat split.
+      + intros z Hz. apply in_app_or in Hz. destruct Hz as [Hz|[<-|[]]]; [now apply Hprov|now apply Hb].
+      + apply asc_snoc; [exact Hasc|]. intros z Hz. specialize (Hbel z Hz). lia.
+      + intros z Hz. apply in_or_app. now left.
+      + intros z Hz. apply in_app_or in Hz. destruct Hz as [Hz|[<-|[]]]; [specialize (Hbel z Hz)|]; lia.
+  Qed.
+
+  Lemma resolve_A x : In x (genes A) -> exists c, resolve A x = Ok c /\ chosen_for x c /\ cg c = x.
+  Proof.
+    intros Hx. destruct (po_res _ _ (c_A Hctx) x Hx) as [a [b [Ea Eb]]]. unfold resolve. rewrite Ea, Eb.
+    eexists. split; [reflexivity|]. apply nwi_In in Ea. apply nwi_In in Eb. destruct Ea as [Ia Ea], Eb as [Ib Eb].
+    unfold chosen_for, cok, pnode. cbn. repeat split; auto. apply (po_tg _ _ (c_A Hctx)), Hx.
+  Qed.
+
+  Lemma resolve_B x : In x (genes B) -> exists c, resolve B x = Ok c /\ chosen_for x c /\ cg c = x.
+  Proof.
+    intros Hx. destruct (po_res _ _ (c_B Hctx) x Hx) as [a [b [Ea Eb]]]. unfold resolve. rewrite Ea, Eb.
+    eexists. split; [reflexivity|]. apply nwi_In in Ea. apply nwi_In in Eb. destruct Ea as [Ia Ea], Eb as [Ib Eb].
+    unfold chosen_for, cok, pnode. cbn. repeat split; auto. apply (po_tg _ _ (c_B Hctx)), Hx.
+  Qed.
+
+  Lemma built_kin c dis x y : chosen_for x c -> built c dis y -> kin x y.
+  Proof using.
+    intros [_ [A1 [A2 [_ [_ [A3 A4]]]]]] [B1 [B2 [B3 [_ [B4 _]]]]]. unfold kin. repeat split; congruence.
+  Qed.
+
+  (* matching genes are never skipped by the conflict check *)
+  Lemma no_conflict gs x1 x2 c :
+    allprov gs -> below gs (g_innov x1) -> In x1 (genes A) -> In x2 (genes B) -> g_innov x1 = g_innov x2 ->
+    chosen_for x1 c -> existsb (fun y => same_link y (cg c)) gs = false.
+  Proof.
+    intros Hprov Hbel H1 H2 E Hc. destruct (existsb _ gs) eqn:Eex; [exfalso|reflexivity].
+    apply existsb_exists in Eex. destruct Eex as [y [Hy Hl]]. specialize (Hbel y Hy).
+    pose proof (c_cons Hctx x1 x2 H1 H2 E) as H12. apply same_link_iff in H12, Hl.
+    destruct Hc as [_ [_ [_ [Ci [Co [Cr _]]]]]].
+    pose proof (po_inj _ _ (c_A Hctx)) as IA. pose proof (po_inj _ _ (c_B Hctx)) as IB.
+    destruct (Hprov y Hy) as [[x [Hx [_ [[K1 [K2 [K3 K4]]] _]]]]|[[x [Hx [_ [[K1 [K2 [K3 K4]]] _]]]]|[x [x' [Hx [_ [_ [[K1 [K2 [K3 K4]]] _]]]]]]]].
+    - assert (S : same_link x x1 = true) by (apply same_link_iff; intuition congruence).
+      specialize (IA x x1 Hx H1 S). lia.
+    - assert (S : same_link x x2 = true) by (apply same_link_iff; intuition congruence).
+      specialize (IB x x2 Hx H2 S). lia.
+    - assert (S : same_link x x1 = true) by (apply same_link_iff; intuition congruence).
+      specialize (IA x x1 Hx H1 S). lia.
+  Qed.
+
+  Lemma chosen_for_swap x1 x2 c :
+    In x1 (genes A) -> In x2 (genes B) -> g_innov x1 = g_innov x2 -> chosen_for x2 c -> chosen_for x1 c.
+  Proof using Hctx.
+    intros H1 H2 E Hc. pose proof (c_cons Hctx x1 x2 H1 H2 E) as H12. apply same_link_iff in H12.
+    destruct H12 as [S1 [S2 S3]]. destruct Hc as [C0 [C1 [C2 [C3 [C4 [C5 C6]]]]]].
+    unfold chosen_for. repeat split; try congruence; apply C0.
+  Qed.
+
+  (* a gene of one parent never conflicts with what was taken from that parent or from matching pairs *)
+  Lemma no_conflict_A gs x c :
+    ~ allow2 -> allprov gs -> below gs (g_innov x) -> In x (genes A) -> chosen_for x c ->
+    existsb (fun y => same_link y (cg c)) gs = false.
+  Proof.
+    intros Hna Hprov Hbel H1 Hc. destruct (existsb _ gs) eqn:Eex; [exfalso|reflexivity].
+    apply existsb_exists in Eex. destruct Eex as [y [Hy Hl]]. specialize (Hbel y Hy). apply same_link_iff in Hl.
+    destruct Hc as [_ [_ [_ [Ci [Co [Cr _]]]]]]. pose proof (po_inj _ _ (c_A Hctx)) as IA.
+    destruct (Hprov y Hy) as [[x' [Hx [_ [[K1 [K2 [K3 K4]]] _]]]]|[[x' [Hx [Hal _]]]|[x' [x'' [Hx [_ [_ [[K1 [K2 [K3 K4]]] _]]]]]]]].
+    - assert (S : same_link x' x = true) by (apply same_link_iff; intuition congruence).
+      specialize (IA x' x Hx H1 S). lia.
+    - contradiction.
+    - assert (S : same_link x' x = true) by (apply same_link_iff; intuition congruence).
+      specialize (IA x' x Hx H1 S). lia.
+  Qed.
+
+  Lemma no_conflict_B gs x c :
+    ~ allow1 -> allprov gs -> below gs (g_innov x) -> In x (genes B) -> chosen_for x c ->
+    existsb (fun y => same_link y (cg c)) gs = false.
+  Proof.
+    intros Hna Hprov Hbel H1 Hc. destruct (existsb _ gs) eqn:Eex; [exfalso|reflexivity].
+    apply existsb_exists in Eex. destruct Eex as [y [Hy Hl]]. specialize (Hbel y Hy). apply same_link_iff in Hl.
+    destruct Hc as [_ [_ [_ [Ci [Co [Cr _]]]]]]. pose proof (po_inj _ _ (c_B Hctx)) as IB.
+    destruct (Hprov y Hy) as [[x' [Hx [Hal _]]]|[[x' [Hx [_ [[K1 [K2 [K3 K4]]] _]]]]|[x' [x'' [Hx [Hx'' [E [[K1 [K2 [K3 K4]]] _]]]]]]]].
+    - contradiction.
+    - assert (S : same_link x' x = true) by (apply same_link_iff; intuition congruence).
+      specialize (IB x' x Hx H1 S). lia.
+    - pose proof (c_cons Hctx x' x'' Hx Hx'' E) as H12. apply same_link_iff in H12.
+      assert (S : same_link x'' x = true) by (apply same_link_iff; intuition congruence).
+      specialize (IB x'' x Hx'' H1 S). lia.
+  Qed.
+
+  (* pure steps: a gene of one side only; it is never dropped when the other side contributes no genes of its own *)
+  Lemma addA ns gs x :
+    allow1 -> In x (genes A) -> ninv ns gs -> allprov gs -> asc g_innov gs -> below gs (g_innov x) ->
+    exists c acc', resolve A x = Ok c /\ add_chosen g nt (ns, gs) c false = Ok acc' /\ stepQ gs x acc' /\
+                   (~ allow2 -> exists y, In y (snd acc') /\ kin x y).
+  Proof.
+    intros Hal Hx Hinv Hp Ha Hb. destruct (resolve_A x Hx) as [c [Er [Hc Ecg]]].
+    destruct (add_step ns gs c false x Hinv Hp Ha Hb Hc) as [acc' [E [HQ Hex]]].
+    - intros y Hy. left. exists x. repeat split; auto; try (eapply built_kin; eassumption);
+        destruct Hy as [_ [_ [_ [Hw [_ He]]]]]; congruence.
+    - exists c, acc'. split; [exact Er|]. split; [exact E|]. split; [exact HQ|]. intros Hna.
+      destruct (Hex (no_conflict_A gs x c Hna Hp Hb Hx Hc)) as [y [Hy Hby]].
+      exists y. split; [exact Hy|eapply built_kin; eassumption].
+  Qed.
+
+  Lemma addB ns gs x :
+    allow2 -> In x (genes B) -> ninv ns gs -> allprov gs -> asc g_innov gs -> below gs (g_innov x) ->
+    exists c acc', resolve B x = Ok c /\ add_chosen g nt (ns, gs) c false = Ok acc' /\ stepQ gs x acc' /\
+                   (~ allow1 -> exists y, In y (snd acc') /\ kin x y).
+  Proof.
+    intros Hal Hx Hinv Hp Ha Hb. destruct (resolve_B x Hx) as [c [Er [Hc Ecg]]].
+    destruct (add_step ns gs c false x Hinv Hp Ha Hb Hc) as [acc' [E [HQ Hex]]].
+    - intros y Hy. right. left. exists x. repeat split; auto; try (eapply built_kin; eassumption);
+        destruct Hy as [_ [_ [_ [Hw [_ He]]]]]; congruence.
+    - exists c, acc'. split; [exact Er|]. split; [exact E|]. split; [exact HQ|]. intros Hna.
+      destruct (Hex (no_conflict_B gs x c Hna Hp Hb Hx Hc)) as [y [Hy Hby]].
+      exists y. split; [exact Hy|eapply built_kin; eassumption].
+  Qed.
+
+  Lemma kin_AB x1 x2 y :
+    In x1 (genes A) -> In x2 (genes B) -> g_innov x1 = g_innov x2 -> kin x1 y -> kin x2 y.
+  Proof using Hctx.
+    intros H1 H2 E [K1 [K2 [K3 K4]]]. pose proof (c_cons Hctx x1 x2 H1 H2 E) as H12. apply same_link_iff in H12.
+    destruct H12 as [S1 [S2 S3]]. unfold kin. repeat split; congruence.
+  Qed.
+
+  (* pure step: a matching pair, any chosen gene that stands for x1, any W it establishes *)
+  Lemma add_matched ns gs x1 x2 c dis :
+    In x1 (genes A) -> In x2 (genes B) -> g_innov x1 = g_innov x2 -> chosen_for x1 c ->
+    (forall y, built c dis y -> W x1 x2 y) ->
+    ninv ns gs -> allprov gs -> asc g_innov gs -> below gs (g_innov x1) ->
+    exists acc', add_chosen g nt (ns, gs) c dis = Ok acc' /\ stepQ gs x1 acc' /\
+                 exists y, In y (snd acc') /\ kin x1 y /\ W x1 x2 y.
+  Proof.
+    intros H1 H2 E Hc HW Hinv Hp Ha Hb.
+    destruct (add_step ns gs c dis x1 Hinv Hp Ha Hb Hc) as [acc' [Ea [HQ Hex]]].
+    - intros y Hy. right. right. exists x1, x2. repeat split; auto; try (eapply built_kin; eassumption).
+    - exists acc'. split; [exact Ea|]. split; [exact HQ|].
+      destruct (Hex (no_conflict gs x1 x2 c Hp Hb H1 H2 E Hc)) as [y [Hy Hby]].
+      exists y. split; [exact Hy|]. split; [eapply built_kin; eassumption|now apply HW].
+  Qed.
+End Acc.
+
+Arguments ctx_ok : clear implicits.
+
+(* ------------------------------------------------------------------------------------------ *)
+(* 6. the random pieces                                                                         *)
+(* ------------------------------------------------------------------------------------------ *)
+Ltac obind P := eapply (okT_bind P); [|intros ? ? ?].
+Ltac obindn P v H := eapply (okT_bind P); [|intros v ? H].
+
+Lemma okT_pick {A} (a b : A) s : okT (fun v => v = a \/ v = b) (pick_gt_half a b s).
+Proof.
+  unfold pick_gt_half. obind (fun _ : float => True); [apply okT_float64|].
+  apply okT_ret. destruct (PrimFloat.ltb _ _); auto.
+Qed.
+
+Lemma okT_disable x1 x2 s :
+  okT (fun dis => (g_en x1 = false -> dis = true) /\ (g_en x1 = true -> g_en x2 = true -> dis = false))
+      (disable_draw x1 x2 s).
+Proof.
+  unfold disable_draw. destruct (g_en x1); cbn [negb].
+  - destruct (g_en x2); cbn [negb].
+    + apply okT_ret. split; [discriminate|reflexivity].
+    + obind (fun _ : float => True); [apply okT_float64|]. apply okT_ret. split; discriminate.
+  - apply okT_ret. split; [reflexivity|discriminate].
+Qed.
+
+Definition en_weak (x1 x2 y : gene) : Prop := g_en x1 = true -> g_en x2 = true -> g_en y = true.
+Definition en_strong (x1 x2 y : gene) : Prop := en_weak x1 x2 y /\ (g_en x1 = false -> g_en y = false).
+
+Lemma okT_avg_gene g nt A B x1 x2 s :
+  ctx_ok g nt A B -> In x1 (genes A) -> In x2 (genes B) -> g_innov x1 = g_innov x2 ->
+  okT (fun c => chosen_for g A B x1 c /\ g_w (cg c) = fmean (g_w x1) (g_w x2) /\ en_strong x1 x2 (cg c))
+      (avg_gene A B x1 x2 s).
+Proof.
+  intros Hctx H1 H2 E. unfold avg_gene.
+  obindn (fun v => v = g_trait x1 \/ v = g_trait x2) tr Htr; [apply okT_pick|].
+  destruct (resolve_A g nt A B Hctx x1 H1) as [c1 [-> [Hc1 _]]].
+  destruct (resolve_B g nt A B Hctx x2 H2) as [c2 [-> [Hc2 _]]].
+  apply (chosen_for_swap g nt A B Hctx x1 x2 c2 H1 H2 E) in Hc2.
+  obindn (fun v => v = c1) c1' Ec1; [apply okT_lift; eauto|]. subst c1'.
+  obindn (fun v => v = c2) c2' Ec2; [apply okT_lift; eauto|]. subst c2'.
+  obindn (fun v => v = cg_inn c1 \/ v = cg_inn c2) inn Hinn; [apply okT_pick|].
+  obindn (fun v => v = cg_outn c1 \/ v = cg_outn c2) outn Houtn; [apply okT_pick|].
+  obindn (fun v => v = g_rec x1 \/ v = g_rec x2) rc Hrc; [apply okT_pick|].
+  obindn (fun dis => (g_en x1 = false -> dis = true) /\ (g_en x1 = true -> g_en x2 = true -> dis = false)) dis Hdis;
+    [apply okT_disable|].
+  apply okT_ret. cbn [cg cg_inn cg_outn g_w g_en].
+  pose proof (c_cons _ _ _ _ Hctx x1 x2 H1 H2 E) as H12. apply same_link_iff in H12.
+  destruct Hc1 as [[P1 [P2 P3]] [I1 [O1 _]]]. destruct Hc2 as [[Q1 [Q2 Q3]] [I2 [O2 _]]].
+  split; [|split; [reflexivity|]].
+  - unfold chosen_for, cok. cbn.
+    assert (T : tref_ok g tr).
+    { destruct Htr; subst tr; [apply (po_tg _ _ (c_A _ _ _ _ Hctx)), H1|apply (po_tg _ _ (c_B _ _ _ _ Hctx)), H2]. }
+    assert (Hr : rc = g_rec x1) by (destruct Hrc; subst rc; intuition congruence).
+    destruct Hinn; subst inn; destruct Houtn; subst outn; repeat split; auto.
+  - destruct Hdis as [D1 D2]. split.
+    + intros E1 E2. cbn. rewrite (D2 E1 E2). reflexivity.
+    + intros E1. cbn. rewrite (D1 E1). reflexivity.
+Qed.
+
+(* ------------------------------------------------------------------------------------------ *)
+(* 7. mateMultipoint / mateMultipointAvg: the loop                                              *)
+(* ------------------------------------------------------------------------------------------ *)
+Definition Wmp (avg : bool) (x1 x2 y : gene) : Prop :=
+  (if avg then g_w y = fmean (g_w x1) (g_w x2) else g_w y = g_w x1 \/ g_w y = g_w x2) /\ en_strong x1 x2 y.
+
+Definition lo (gs l : list gene) : Prop := forall y z, In y gs -> In z l -> g_innov y < g_innov z.
+
+Lemma lo_le gs x l :
+  (forall y, In y gs -> g_innov y <= g_innov x) -> (forall z, In z l -> g_innov x < g_innov z) -> lo gs l.
+Proof. intros H1 H2 y z Hy Hz. specialize (H1 y Hy). specialize (H2 z Hz). lia. Qed.
+
+Lemma asc_head {A} (key : A -> Z) x l : asc key (x :: l) -> forall z, In z l -> key x < key z.
+Proof. intros H. apply asc_cons in H. destruct H as [_ H]. rewrite Forall_forall in H. exact H. Qed.
+
+Lemma asc_tail {A} (key : A -> Z) x l : asc key (x :: l) -> asc key l.
+Proof. intros H. apply asc_cons in H. tauto. Qed.
+
+Lemma okT_side {S} (Q : list node * list gene -> Prop) g nt acc (r : res cgene) c dis acc' (s : S) :
+  r = Ok c -> add_chosen g nt acc c dis = Ok acc' -> Q acc' ->
+  okT Q ((let! c := lift r in lift (add_chosen g nt acc c dis)) s).
+Proof. intros -> E H. unfold bindM, lift. cbn. rewrite E. cbn. exact H. Qed.
+
+Section MP.
+  Variables (avg : bool) (g og : genome) (nt : list trait) (ns0 : list node) (p1b : bool).
+  Hypothesis Hctx : ctx_ok g nt g og.
+
+  Notation NINV := (ninv nt g og ns0).
+  Notation PROV := (allprov g og (p1b = true) (p1b = false) (Wmp avg)).
+  Notation STEPQ := (stepQ nt g og ns0 (p1b = true) (p1b = false) (Wmp avg)).
+
+  Lemma sideA_ok ns gs x (s : st) :
+    In x (genes g) -> NINV ns gs -> PROV gs -> asc g_innov gs -> below gs (g_innov x) ->
+    okT (fun acc' => STEPQ gs x acc' /\ (p1b = true -> exists y, In y (snd acc') /\ kin x y))
+        ((if negb p1b then ret (ns, gs)
+          else let! c := lift (resolve g x) in lift (add_chosen g nt (ns, gs) c false)) s).
+  Proof.
+    intros Hx Hinv Hp Ha Hb. destruct p1b eqn:Ep; cbn [negb].
+    - destruct (addA g nt g og ns0 _ _ _ Hctx ns gs x eq_refl Hx Hinv Hp Ha Hb) as [c [acc' [Er [Ea [HQ Hex]]]]].
+      eapply okT_side; try eassumption. split; [exact HQ|]. intros _. apply Hex. discriminate.
+    - apply okT_ret. split; [now apply stepQ_skip|discriminate].
+  Qed.
+
+  Lemma sideB_ok ns gs x (s : st) :
+    In x (genes og) -> NINV ns gs -> PROV gs -> asc g_innov gs -> below gs (g_innov x) ->
+    okT (fun acc' => STEPQ gs x acc' /\ (p1b = false -> exists y, In y (snd acc') /\ kin x y))
+        ((if p1b then ret (ns, gs)
+          else let! c := lift (resolve og x) in lift (add_chosen g nt (ns, gs) c false)) s).
+  Proof.
+    intros Hx Hinv Hp Ha Hb. destruct p1b eqn:Ep.
+    - apply okT_ret. split; [now apply stepQ_skip|discriminate].
+    - destruct (addB g nt g og ns0 _ _ _ Hctx ns gs x eq_refl Hx Hinv Hp Ha Hb) as [c [acc' [Er [Ea [HQ Hex]]]]].
+      eapply okT_side; try eassumption. split; [exact HQ|]. intros _. apply Hex. discriminate.
+  Qed.
+
+  Lemma match_ok ns gs x1 x2 (s : st) :
+    In x1 (genes g) -> In x2 (genes og) -> g_innov x1 = g_innov x2 ->
+    NINV ns gs -> PROV gs -> asc g_innov gs -> below gs (g_innov x1) ->
+    okT (fun acc' => STEPQ gs x1 acc' /\ exists y, In y (snd acc') /\ kin x1 y /\ Wmp avg x1 x2 y)
+        ((if avg then
+            let! c := avg_gene g og x1 x2 in lift (add_chosen g nt (ns, gs) c false)
+          else
+            let! r := r_float64 in
+            let! c := (if PrimFloat.ltb r half then lift (resolve g x1) else lift (resolve og x2)) in
+            let! dis := disable_draw x1 x2 in
+            lift (add_chosen g nt (ns, gs) c dis)) s).
+  Proof.
+    intros H1 H2 E Hinv Hp Ha Hb. destruct avg eqn:Eavg.
+    - obindn (fun c => chosen_for g g og x1 c /\ g_w (cg c) = fmean (g_w x1) (g_w x2) /\ en_strong x1 x2 (cg c)) c Hc0;
+        [now apply (okT_avg_gene g nt g og)|].
+      destruct Hc0 as [Hc [Hw [He1 He2]]].
+      destruct (add_matched g nt g og ns0 (p1b = true) (p1b = false) (Wmp true) Hctx ns gs x1 x2 c false
+                            H1 H2 E Hc) as [acc' [Ea HQ]]; auto.
+      + intros y [_ [_ [_ [Yw [_ Ye]]]]]. unfold Wmp, en_strong, en_weak. rewrite Yw, Ye. auto.
+      + apply okT_lift. eauto.
+    - obindn (fun _ : float => True) r Hr; [apply okT_float64|].
+      obindn (fun c => chosen_for g g og x1 c /\ (cg c = x1 \/ cg c = x2)) c Hc0.
+      { destruct (PrimFloat.ltb r half).
+        - destruct (resolve_A g nt g og Hctx x1 H1) as [c [-> [Hc Ec]]]. apply okT_lift. eauto.
+        - destruct (resolve_B g nt g og Hctx x2 H2) as [c [-> [Hc Ec]]]. apply okT_lift.
+          exists c. split; [reflexivity|]. split; [|now right].
+          now apply (chosen_for_swap g nt g og Hctx x1 x2 c). }
+      destruct Hc0 as [Hc Hcg].
+      obindn (fun dis => (g_en x1 = false -> dis = true) /\ (g_en x1 = true -> g_en x2 = true -> dis = false)) dis Hdis;
+        [apply okT_disable|].
+      destruct Hdis as [D1 D2].
+      destruct (add_matched g nt g og ns0 (p1b = true) (p1b = false) (Wmp false) Hctx ns gs x1 x2 c dis
+                            H1 H2 E Hc) as [acc' [Ea HQ]]; auto.
+      + intros y [_ [_ [_ [Yw [_ Ye]]]]]. unfold Wmp, en_strong, en_weak. rewrite Yw, Ye. split.
+        * destruct Hcg as [-> | ->]; auto.
+        * split.
+          -- intros E1 E2. rewrite (D2 E1 E2). destruct Hcg as [-> | ->]; assumption.
+          -- intros E1. rewrite (D1 E1). reflexivity.
+      + apply okT_lift. eauto.
+  Qed.
+
+  Definition mpQ (gs l1 l2 : list gene) (acc' : list node * list gene) : Prop :=
+    NINV (fst acc') (snd acc') /\ PROV (snd acc') /\ asc g_innov (snd acc') /\ incl gs (snd acc') /\
+    (forall x1 x2, In x1 l1 -> In x2 l2 -> g_innov x1 = g_innov x2 ->
+                   exists y, In y (snd acc') /\ kin x1 y /\ Wmp avg x1 x2 y) /\
+    (p1b = true -> forall x, In x l1 -> exists y, In y (snd acc') /\ kin x y) /\
+    (p1b = false -> forall x, In x l2 -> exists y, In y (snd acc') /\ kin x y).
+
+  Lemma mp_loop : forall fuel l1 l2 ns gs s,
+      (length l1 + length l2 < fuel)%nat ->
+      asc g_innov l1 -> asc g_innov l2 -> incl l1 (genes g) -> incl l2 (genes og) ->
+      NINV ns gs -> PROV gs -> asc g_innov gs -> lo gs l1 -> lo gs l2 ->
+      okT (mpQ gs l1 l2) (multipoint_loop fuel avg g og nt p1b l1 l2 (ns, gs) s).
+  Proof.
+    induction fuel as [|fuel IH]; intros l1 l2 ns gs s Hf A1 A2 I1 I2 Hinv Hp Ha L1 L2; [lia|].
+    cbn [multipoint_loop]. destruct l1 as [|x1 l1'], l2 as [|x2 l2'].
+    - apply okT_ret. unfold mpQ. cbn [fst snd].
+      refine (conj Hinv (conj Hp (conj Ha (conj (incl_refl _) (conj _ (conj _ _)))))).
+      + intros ? ? [].
+      + intros _ ? [].
+      + intros _ ? [].
+    - (* excess of the second parent *)
+      assert (Hx2 : In x2 (genes og)) by (apply I2; now left).
+      obindn (fun acc' => STEPQ gs x2 acc' /\ (p1b = false -> exists y, In y (snd acc') /\ kin x2 y)) acc' HQ.
+      { apply sideB_ok; auto. intros y Hy. apply L2; [exact Hy|now left]. }
+      destruct acc' as [ns' gs']. destruct HQ as [[Q1 [Q2 [Q3 [Q4 Q5]]]] Q6]. cbn [fst snd] in *.
+      eapply okT_mono.
+      + apply IH; auto.
+        * cbn [length] in *. lia.
+        * eapply asc_tail; eassumption.
+        * intros z Hz. apply I2. now right.
+        * intros y z _ [].
+        * eapply lo_le; [exact Q5|]. eapply asc_head; eassumption.
+      + intros acc'' [R1 [R2 [R3 [R4 [R5 [R6 R7]]]]]].
+        refine (conj R1 (conj R2 (conj R3 (conj _ (conj _ (conj _ _)))))).
+        * eapply incl_tran; eassumption.
+        * intros ? ? [].
+        * intros _ ? [].
+        * intros Eb x [<-|Hx]; [|now apply R7]. destruct (Q6 Eb) as [y [Hy K]]. exists y. split; [now apply R4|exact K].
+    - (* excess of the first parent *)
+      assert (Hx1 : In x1 (genes g)) by (apply I1; now left).
+      obindn (fun acc' => STEPQ gs x1 acc' /\ (p1b = true -> exists y, In y (snd acc') /\ kin x1 y)) acc' HQ.
+      { apply sideA_ok; auto. intros y Hy. apply L1; [exact Hy|now left]. }
+      destruct acc' as [ns' gs']. destruct HQ as [[Q1 [Q2 [Q3 [Q4 Q5]]]] Q6]. cbn [fst snd] in *.
+      eapply okT_mono.
+      + apply IH; auto.
+        * cbn [length] in *. lia.
+        * eapply asc_tail; eassumption.
+        * intros z Hz. apply I1. now right.
+        * eapply lo_le; [exact Q5|]. eapply asc_head; eassumption.
+        * intros y z _ [].
+      + intros acc'' [R1 [R2 [R3 [R4 [R5 [R6 R7]]]]]].
+        refine (conj R1 (conj R2 (conj R3 (conj _ (conj _ (conj _ _)))))).
+        * eapply incl_tran; eassumption.
+        * intros ? ? _ [].
+        * intros Eb x [<-|Hx]; [|now apply R6]. destruct (Q6 Eb) as [y [Hy K]]. exists y. split; [now apply R4|exact K].
+        * intros _ ? [].
+    - assert (Hx1 : In x1 (genes g)) by (apply I1; now left).
+      assert (Hx2 : In x2 (genes og)) by (apply I2; now left).
+      pose proof (asc_head _ _ _ A1) as T1. pose proof (asc_head _ _ _ A2) as T2.
+      destruct (Z.eqb_spec (g_innov x1) (g_innov x2)) as [E|NE].
+      + (* matching genes *)
+        obindn (fun acc' => STEPQ gs x1 acc' /\ exists y, In y (snd acc') /\ kin x1 y /\ Wmp avg x1 x2 y) acc' HQ.
+        { apply match_ok; auto. intros y Hy. apply L1; [exact Hy|now left]. }
+        destruct acc' as [ns' gs']. destruct HQ as [[Q1 [Q2 [Q3 [Q4 Q5]]]] [y0 [Hy0 [K0 W0]]]]. cbn [fst snd] in *.
+        eapply okT_mono.
+        * apply IH; auto.
+          -- cbn [length] in *. lia.
+          -- eapply asc_tail; eassumption.
+          -- eapply asc_tail; eassumption.
+          -- intros z Hz. apply I1. now right.
+          -- intros z Hz. apply I2. now right.
+          -- eapply lo_le; [exact Q5|exact T1].
+          -- eapply lo_le; [exact Q5|]. intros z Hz. rewrite E. now apply T2.
+        * intros acc'' [R1 [R2 [R3 [R4 [R5 [R6 R7]]]]]].
+          refine (conj R1 (conj R2 (conj R3 (conj _ (conj _ (conj _ _)))))).
+          -- eapply incl_tran; eassumption.
+          -- intros u1 u2 [<-|U1] [<-|U2] EU.
+             ++ exists y0. split; [now apply R4|auto].
+             ++ specialize (T2 _ U2). lia.
+             ++ specialize (T1 _ U1). lia.
+             ++ now apply R5.
+          -- intros Eb x [<-|Hx]; [|now apply R6]. exists y0. split; [now apply R4|exact K0].
+          -- intros Eb x [<-|Hx]; [|now apply R7]. exists y0. split; [now apply R4|].
+             now apply (kin_AB g nt g og Hctx x1 x2).
+      + destruct (Z.ltb_spec (g_innov x1) (g_innov x2)) as [LT|GE].
+        * (* disjoint gene of the first parent *)
+          obindn (fun acc' => STEPQ gs x1 acc' /\ (p1b = true -> exists y, In y (snd acc') /\ kin x1 y)) acc' HQ.
+          { apply sideA_ok; auto. intros y Hy. apply L1; [exact Hy|now left]. }
+          destruct acc' as [ns' gs']. destruct HQ as [[Q1 [Q2 [Q3 [Q4 Q5]]]] Q6]. cbn [fst snd] in *.
+          eapply okT_mono.
+          -- apply IH; auto.
+             ++ cbn [length] in *. lia.
+             ++ eapply asc_tail; eassumption.
+             ++ intros z Hz. apply I1. now right.
+             ++ eapply lo_le; [exact Q5|exact T1].
+             ++ eapply lo_le; [exact Q5|]. intros z [<-|Hz]; [lia|]. specialize (T2 _ Hz). lia.
+          -- intros acc'' [R1 [R2 [R3 [R4 [R5 [R6 R7]]]]]].
+             refine (conj R1 (conj R2 (conj R3 (conj _ (conj _ (conj _ R7)))))).
+             ++ eapply incl_tran; eassumption.
+             ++ intros u1 u2 [<-|U1] U2 EU; [|now apply R5].
+                destruct U2 as [<-|U2]; [lia|]. specialize (T2 _ U2). lia.
+             ++ intros Eb x [<-|Hx]; [|now apply R6]. destruct (Q6 Eb) as [y [Hy K]]. exists y. split; [now apply R4|exact K].
+        * (* disjoint gene of the second parent *)
+          obindn (fun acc' => STEPQ gs x2 acc' /\ (p1b = false -> exists y, In y (snd acc') /\ kin x2 y)) acc' HQ.
+          { apply sideB_ok; auto. intros y Hy. apply L2; [exact Hy|now left]. }
+          destruct acc' as [ns' gs']. destruct HQ as [[Q1 [Q2 [Q3 [Q4 Q5]]]] Q6]. cbn [fst snd] in *.
+          eapply okT_mono.
+          -- apply IH; auto.
+             ++ cbn [length] in *. lia.
+             ++ eapply asc_tail; eassumption.
+             ++ intros z Hz. apply I2. now right.
+             ++ eapply lo_le; [exact Q5|]. intros z [<-|Hz]; [lia|]. specialize (T1 _ Hz). lia.
+             ++ eapply lo_le; [exact Q5|exact T2].
+          -- intros acc'' [R1 [R2 [R3 [R4 [R5 [R6 R7]]]]]].
+             refine (conj R1 (conj R2 (conj R3 (conj _ (conj _ (conj R6 _)))))).
+             ++ eapply incl_tran; eassumption.
+             ++ intros u1 u2 U1 [<-|U2] EU; [|now apply R5].
+                destruct U1 as [<-|U1]; [lia|]. specialize (T1 _ U1). lia.
+             ++ intros Eb x [<-|Hx]; [|now apply R7]. destruct (Q6 Eb) as [y [Hy K]]. exists y. split; [now apply R4|exact K].
+  Qed.
+End MP.
+
+(* ------------------------------------------------------------------------------------------ *)
+(* 8. the io nodes copied first, and what the node invariant says at the end                    *)
+(* ------------------------------------------------------------------------------------------ *)
+Definition same_node (m n : node) : Prop := n_id m = n_id n /\ n_type m = n_type n /\ n_act m = n_act n.
+
+Lemma io_nodes_of_ok g nt : traits g <> [] -> length nt = length (traits g) ->
+  forall l acc,
+    asc n_id acc -> (forall n, In n l -> tref_ok g (n_trait n)) ->
+    NoDup (map n_id (filter is_io l)) ->
+    (forall n, In n (filter is_io l) -> ~ In (n_id n) (map n_id acc)) ->
+    exists ns, io_nodes_of g nt l acc = Ok ns /\ asc n_id ns /\ incl acc ns /\
+      (forall m, In m ns -> In m acc \/ (ntr_ok nt m /\ exists n, In n l /\ is_io n = true /\ same_node n m)) /\
+      (forall n, In n l -> is_io n = true -> exists m, In m ns /\ same_node n m).
+Proof.
+  intros Hne Hlen. induction l as [|n l IH]; intros acc Ha Ht Hnd Hfresh.
+  - exists acc. cbn. repeat split; auto using incl_refl. intros ? [].
+  - cbn [io_nodes_of]. cbn [filter] in Hnd, Hfresh. destruct (is_io n) eqn:Eio.
+    + destruct (child_trait_ok g nt (n_trait n) Hne Hlen (Ht n (or_introl eq_refl))) as [tid [-> Htid]]. cbn [bind].
+      cbn [map] in Hnd. inversion Hnd as [|? ? Hnin Hnd']; subst.
+      set (n' := {| n_id := n_id n; n_type := n_type n; n_act := n_act n; n_trait := Some tid |}).
+      destruct (IH (node_insert acc n')) as [ns [E [Hs [Hi [Hsrc Hall]]]]].
+      * apply insert_sorted_asc; [exact Ha|]. exact (Hfresh n (or_introl eq_refl)).
+      * intros m Hm. apply Ht. now right.
+      * exact Hnd'.
+      * intros m Hm Hin. apply in_map_iff in Hin. destruct Hin as [z [Ez Hz]].
+        apply insert_sorted_In in Hz. destruct Hz as [->|Hz].
+        -- apply Hnin. change (n_id n) with (n_id n'). rewrite Ez. now apply in_map.
+        -- apply (Hfresh m (or_intror Hm)). rewrite <- Ez. now apply in_map.
+      * exists ns. split; [exact E|]. split; [exact Hs|]. split; [|split].
+        -- intros m Hm. apply Hi. apply insert_sorted_In. now right.
+        -- intros m Hm. destruct (Hsrc m Hm) as [Hm'|[Hmt [z [Hz [Hzio Hzs]]]]].
+           ++ apply insert_sorted_In in Hm'. destruct Hm' as [->|Hm']; [right|now left].
+              split; [exists tid; cbn; auto|].
+              exists n. split; [now left|]. split; [exact Eio|]. unfold same_node. cbn. auto.
+           ++ right. split; [exact Hmt|]. exists z. split; [now right|auto].
+        -- intros z [<-|Hz] Hzio; [|now apply Hall].
+           exists n'. split; [|unfold same_node; cbn; auto]. apply Hi. apply insert_sorted_In. now left.
+    + destruct (IH acc Ha) as [ns [E [Hs [Hi [Hsrc Hall]]]]]; auto.
+      * intros m Hm. apply Ht. now right.
+      * exists ns. split; [exact E|]. split; [exact Hs|]. split; [exact Hi|]. split.
+        -- intros m Hm. destruct (Hsrc m Hm) as [Hm'|[Hmt [z [Hz Hzs]]]]; [now left|right].
+           split; [exact Hmt|]. exists z. split; [now right|exact Hzs].
+        -- intros z [<-|Hz] Hzio; [congruence|now apply Hall].
+Qed.
+
+Lemma ninv_start nt A B ns0 : asc n_id ns0 -> (forall n, In n ns0 -> ntr_ok nt n) -> ninv nt A B ns0 ns0 [].
+Proof.
+  intros H Ht. constructor; auto using incl_refl.
+  - intros ? [].
+  - intros ? [].
+  - intros ? ? [].
+Qed.
+
+(* the node clauses of the property, from the invariant *)
+Lemma nodes_post nt A B og ns0 ns gs :
+  (forall n, In n (nodes og) -> pnode A B n) ->
+  (forall m, In m ns0 -> exists n, In n (nodes og) /\ is_io n = true /\ same_node n m) ->
+  (forall n, In n (nodes og) -> is_io n = true -> exists m, In m ns0 /\ same_node n m) ->
+  ninv nt A B ns0 ns gs ->
+  asc n_id ns /\
+  (forall id, In id (map n_id ns) <-> In id (io_ids og) \/ touched gs id) /\
+  (forall n, In n ns -> nsrc A B n) /\
+  (forall m, In m (nodes og) -> is_io m = true -> exists n, In n ns /\ same_node m n).
+Proof.
+  intros Hog H0 H0' [Ha Hsrc Hio Hends _ _ _]. split; [exact Ha|]. split; [|split].
+  - intros id. split.
+    + intros Hid. apply in_map_iff in Hid. destruct Hid as [n [<- Hn]].
+      destruct (Hsrc n Hn) as [Hn0|[_ Ht]]; [left|now right].
+      destruct (H0 n Hn0) as [z [Hz [Hzio [Ez _]]]]. rewrite <- Ez. unfold io_ids.
+      apply in_map. apply filter_In. auto.
+    + intros [Hid|[y [Hy [->| ->]]]]; try (now apply Hends).
+      unfold io_ids in Hid. apply in_map_iff in Hid. destruct Hid as [z [<- Hz]]. apply filter_In in Hz.
+      destruct Hz as [Hz Hzio]. destruct (H0' z Hz Hzio) as [m [Hm [Em _]]]. rewrite Em. apply in_map. now apply Hio.
+  - intros n Hn. destruct (Hsrc n Hn) as [Hn0|[Hs _]]; [|exact Hs].
+    destruct (H0 n Hn0) as [z [Hz [_ [E1 [E2 E3]]]]]. exists z. split; [now apply Hog|auto].
+  - intros m Hm Hmio. destruct (H0' m Hm Hmio) as [n [Hn Hs]]. exists n. split; [now apply Hio|exact Hs].
+Qed.
+
+(* ------------------------------------------------------------------------------------------ *)
+(* 9. mateMultipoint / mateMultipointAvg: the whole function                                    *)
+(* ------------------------------------------------------------------------------------------ *)
+Definition mean_traits (p1 p2 : genome) : list trait :=
+  map (fun ab => trait_mean (fst ab) (snd ab)) (combine (traits p1) (traits p2)).
+
+Lemma mean_traits_length p1 p2 : traits_match p1 p2 -> length (mean_traits p1 p2) = length (traits p1).
+Proof.
+  intros [_ H]. unfold mean_traits. rewrite map_length, combine_length.
+  apply Forall2_length' in H. lia.
+Qed.
+
+Lemma hyps_ctx p1 p2 : mate_hyps p1 p2 -> ctx_ok p1 (mean_traits p1 p2) p1 p2.
+Proof.
+  intros H. constructor.
+  - apply (mh_traits _ _ H).
+  - apply mean_traits_length, (mh_traits _ _ H).
+  - apply (mh_p1 _ _ H).
+  - apply (mh_p2 _ _ H).
+  - apply (mh_cons _ _ H).
+Qed.
+
+Lemma hyps_io p1 p2 : mate_hyps p1 p2 ->
+  exists ns0, io_nodes_of p1 (mean_traits p1 p2) (nodes p2) [] = Ok ns0 /\ asc n_id ns0 /\
+    (forall m, In m ns0 -> exists n, In n (nodes p2) /\ is_io n = true /\ same_node n m) /\
+    (forall n, In n (nodes p2) -> is_io n = true -> exists m, In m ns0 /\ same_node n m) /\
+    (forall m, In m ns0 -> ntr_ok (mean_traits p1 p2) m).
+Proof.
+  intros H.
+  destruct (io_nodes_of_ok p1 (mean_traits p1 p2) (proj1 (mh_traits _ _ H))
+                           (mean_traits_length _ _ (mh_traits _ _ H)) (nodes p2) [])
+    as [ns0 [E [Hs [_ [Hsrc Hall]]]]].
+  - apply asc_nil.
+  - apply (po_tn _ _ (mh_p2 _ _ H)).
+  - apply (mh_io _ _ H).
+  - intros n _ [].
+  - exists ns0. split; [exact E|]. split; [exact Hs|]. split; [|split; [exact Hall|]].
+    + intros m Hm. destruct (Hsrc m Hm) as [[]|[_ Hx]]. exact Hx.
+    + intros m Hm. destruct (Hsrc m Hm) as [[]|[Hx _]]. exact Hx.
+Qed.
+
+(* everything the loop invariant gives about a child [c] of p1 (fitness f1) and p2 (fitness f2) *)
+Definition mp_post (avg : bool) (p1 p2 : genome) (f1 f2 : float) (c : genome) : Prop :=
+  let p1b := p1_better f1 f2 p1 p2 in
+  modules c = [] /\
+  traits c = mean_traits p1 p2 /\
+  asc g_innov (genes c) /\
+  (forall y, In y (genes c) -> prov p1 p2 (p1b = true) (p1b = false) (Wmp avg) y) /\
+  (forall x1 x2, In x1 (genes p1) -> In x2 (genes p2) -> g_innov x1 = g_innov x2 ->
+                 exists y, In y (genes c) /\ kin x1 y /\ Wmp avg x1 x2 y) /\
+  asc n_id (nodes c) /\
+  (forall id, In id (map n_id (nodes c)) <-> In id (io_ids p2) \/ touched (genes c) id) /\
+  (forall n, In n (nodes c) -> nsrc p1 p2 n) /\
+  (forall m, In m (nodes p2) -> is_io m = true -> exists n, In n (nodes c) /\ same_node m n) /\
+  (p1b = true -> forall x, In x (genes p1) -> exists y, In y (genes c) /\ kin x y) /\
+  (p1b = false -> forall x, In x (genes p2) -> exists y, In y (genes c) /\ kin x y) /\
+  link_inj (genes c) /\
+  (forall y, In y (genes c) -> gtr_ok (traits c) y) /\
+  (forall n, In n (nodes c) -> ntr_ok (traits c) n).
+
+Theorem mp_ok avg p1 p2 id f1 f2 s :
+  mate_hyps p1 p2 -> okT (mp_post avg p1 p2 f1 f2) (mate_multipoint_gen avg p1 p2 id f1 f2 s).
+Proof.
+  intros H. unfold mate_multipoint_gen.
+  pose proof (mh_traits _ _ H) as [Hne HF].
+  rewrite (Forall2_length' _ _ _ HF), Nat.eqb_refl. cbn [negb].
+  rewrite (po_mod _ _ (mh_p1 _ _ H)), (po_mod _ _ (mh_p2 _ _ H)).
+  rewrite (mate_traits_ok _ _ HF). fold (mean_traits p1 p2).
+  obindn (fun v => v = mean_traits p1 p2) nt Hnt; [apply okT_lift; eauto|]. subst nt.
+  destruct (hyps_io p1 p2 H) as [ns0 [E0 [Hs0 [Hsrc0 [Hall0 Htr0]]]]]. rewrite E0.
+  obindn (fun v => v = ns0) ns0' Hns0; [apply okT_lift; eauto|]. subst ns0'.
+  pose proof (hyps_ctx p1 p2 H) as Hctx.
+  obindn (mpQ avg p1 p2 (mean_traits p1 p2) ns0 (p1_better f1 f2 p1 p2) [] (genes p1) (genes p2)) r Hr.
+  { apply mp_loop;
+      [exact Hctx | lia | apply (po_asc _ _ (mh_p1 _ _ H)) | apply (po_asc _ _ (mh_p2 _ _ H))
+       | apply incl_refl | apply incl_refl | now apply ninv_start | intros ? [] | apply asc_nil
+       | intros ? ? [] | intros ? ? []]. }
+  apply okT_ret. destruct Hr as [R1 [R2 [R3 [_ [R5 [R6 R7]]]]]].
+  destruct (nodes_post (mean_traits p1 p2) p1 p2 p2 ns0 (fst r) (snd r)) as [N1 [N2 [N3 N4]]]; auto.
+  { intros n Hn. now right. }
+  unfold mp_post. cbn [modules traits genes nodes].
+  pose proof (ni_linj _ _ _ _ _ _ R1) as X1. pose proof (ni_gtr _ _ _ _ _ _ R1) as X2.
+  pose proof (ni_ntr _ _ _ _ _ _ R1) as X3. auto 20.
+Qed.
+
+(* ------------------------------------------------------------------------------------------ *)
+(* 10. mateSinglePoint: the loop                                                                *)
+(* ------------------------------------------------------------------------------------------ *)
+Definition Wsp (x1 x2 y : gene) : Prop :=
+  (g_w y = g_w x1 \/ g_w y = g_w x2 \/ g_w y = fmean (g_w x1) (g_w x2)) /\ en_weak x1 x2 y.
+
+Section SP.
+  Variables (g a b : genome) (nt : list trait) (ns0 : list node) (cross : Z).
+  Hypothesis Hctx : ctx_ok g nt a b.
+
+  Notation NINV := (ninv nt a b ns0).
+  Notation PROV := (allprov a b True True Wsp).
+  Notation STEPQ := (stepQ nt a b ns0 True True Wsp).
+
+  Definition spQ (gs l1 l2 : list gene) (acc' : list node * list gene) : Prop :=
+    NINV (fst acc') (snd acc') /\ PROV (snd acc') /\ asc g_innov (snd acc') /\ incl gs (snd acc') /\
+    (forall x1 x2, hd_error l1 = Some x1 -> hd_error l2 = Some x2 -> g_innov x1 = g_innov x2 ->
+                   exists y, In y (snd acc') /\ kin x1 y /\ Wsp x1 x2 y).
+
+  Lemma sp_choice counter x1 x2 (s : st) :
+    In x1 (genes a) -> In x2 (genes b) -> g_innov x1 = g_innov x2 ->
+    okT (fun c => chosen_for g a b x1 c /\ forall y, built c false y -> Wsp x1 x2 y)
+        ((if Z.ltb counter cross then lift (resolve a x1)
+          else if Z.gtb counter cross then lift (resolve b x2)
+          else avg_gene a b x1 x2) s).
+  Proof.
+    intros H1 H2 E. destruct (Z.ltb counter cross); [|destruct (Z.gtb counter cross)].
+    - destruct (resolve_A g nt a b Hctx x1 H1) as [c [-> [Hc Ec]]]. apply okT_lift.
+      exists c. split; [reflexivity|]. split; [exact Hc|].
+      intros y [_ [_ [_ [Yw [_ Ye]]]]]. rewrite Ec in Yw, Ye. split; [now left|]. intros E1 _. congruence.
+    - destruct (resolve_B g nt a b Hctx x2 H2) as [c [-> [Hc Ec]]]. apply okT_lift.
+      exists c. split; [reflexivity|]. split; [now apply (chosen_for_swap g nt a b Hctx x1 x2 c)|].
+      intros y [_ [_ [_ [Yw [_ Ye]]]]]. rewrite Ec in Yw, Ye. split; [right; now left|]. intros _ E2. congruence.
+    - eapply okT_mono; [now apply (okT_avg_gene g nt a b)|].
+      intros c [Hc [Hw [He _]]]. split; [exact Hc|].
+      intros y [_ [_ [_ [Yw [_ Ye]]]]]. split; [right; right; congruence|].
+      intros E1 E2. rewrite Ye. now apply He.
+  Qed.
+
+  Lemma sp_loop : forall fuel l1 l2 counter cs ns gs s,
+      (length l1 + length l2 < fuel)%nat ->
+      asc g_innov l1 -> asc g_innov l2 -> incl l1 (genes a) -> incl l2 (genes b) ->
+      NINV ns gs -> PROV gs -> asc g_innov gs -> (counter < cross -> lo gs l1) -> lo gs l2 ->
+      okT (spQ gs l1 l2) (singlepoint_loop fuel g a b nt cross l1 l2 counter cs (ns, gs) s).
+  Proof.
+    induction fuel as [|fuel IH]; intros l1 l2 counter cs ns gs s Hf A1 A2 I1 I2 Hinv Hp Ha L1 L2; [lia|].
+    cbn [singlepoint_loop]. destruct l2 as [|x2 l2'].
+    { apply okT_ret. unfold spQ. cbn [fst snd].
+      refine (conj Hinv (conj Hp (conj Ha (conj (incl_refl _) _)))). intros ? ? _ [=]. }
+    assert (Hx2 : In x2 (genes b)) by (apply I2; now left).
+    pose proof (asc_head _ _ _ A2) as T2. pose proof (asc_tail _ _ _ A2) as A2'.
+    assert (I2' : incl l2' (genes b)) by (intros z Hz; apply I2; now right).
+    assert (B2 : below gs (g_innov x2)) by (intros y Hy; apply L2; [exact Hy|now left]).
+    destruct l1 as [|x1 l1'].
+    - (* the shorter parent is exhausted *)
+      destruct (addB g nt a b ns0 True True Wsp Hctx ns gs x2 I Hx2 Hinv Hp Ha B2) as [c [acc' [Er [Ea [HQ _]]]]].
+      obindn (fun v => v = c) c' Hc'; [apply okT_lift; eauto|]. subst c'.
+      obindn (fun v => v = acc') acc'' Hacc; [apply okT_lift; eauto|]. subst acc''.
+      destruct acc' as [ns' gs']. destruct HQ as [Q1 [Q2 [Q3 [Q4 Q5]]]]. cbn [fst snd] in *.
+      eapply okT_mono.
+      + apply IH; auto.
+        * cbn [length] in *. lia.
+        * intros _ ? ? _ [].
+        * eapply lo_le; [exact Q5|exact T2].
+      + intros r [R1 [R2 [R3 [R4 R5]]]]. refine (conj R1 (conj R2 (conj R3 (conj _ _)))).
+        * eapply incl_tran; eassumption.
+        * intros ? ? [=].
+    - assert (Hx1 : In x1 (genes a)) by (apply I1; now left).
+      pose proof (asc_head _ _ _ A1) as T1. pose proof (asc_tail _ _ _ A1) as A1'.
+      assert (I1' : incl l1' (genes a)) by (intros z Hz; apply I1; now right).
+      destruct (Z.eqb_spec (g_innov x1) (g_innov x2)) as [E|NE].
+      + (* matching genes *)
+        obindn (fun c => chosen_for g a b x1 c /\ forall y, built c false y -> Wsp x1 x2 y) c Hc;
+          [now apply sp_choice|].
+        destruct Hc as [Hc HW].
+        assert (B1 : below gs (g_innov x1)) by (rewrite E; exact B2).
+        destruct (add_matched g nt a b ns0 True True Wsp Hctx ns gs x1 x2 c false Hx1 Hx2 E Hc HW Hinv Hp Ha B1)
+          as [acc' [Ea [HQ [y0 [Hy0 [K0 W0]]]]]].
+        obindn (fun v => v = acc') acc'' Hacc; [apply okT_lift; eauto|]. subst acc''.
+        destruct acc' as [ns' gs']. destruct HQ as [Q1 [Q2 [Q3 [Q4 Q5]]]]. cbn [fst snd] in *.
+        eapply okT_mono.
+        * apply IH; auto.
+          -- cbn [length] in *. lia.
+          -- intros _. eapply lo_le; [exact Q5|exact T1].
+          -- eapply lo_le; [exact Q5|]. intros z Hz. rewrite E. now apply T2.
+        * intros r [R1 [R2 [R3 [R4 R5]]]]. refine (conj R1 (conj R2 (conj R3 (conj _ _)))).
+          -- eapply incl_tran; eassumption.
+          -- intros u1 u2 [= <-] [= <-] _. exists y0. split; [now apply R4|auto].
+      + destruct (Z.ltb_spec (g_innov x1) (g_innov x2)) as [LT|GE].
+        * destruct (Z.ltb_spec counter cross) as [CL|CG].
+          -- (* before the crossing point: disjoint gene of the shorter parent *)
+             assert (B1 : below gs (g_innov x1)) by (intros y Hy; apply (L1 CL); [exact Hy|now left]).
+             destruct (addA g nt a b ns0 True True Wsp Hctx ns gs x1 I Hx1 Hinv Hp Ha B1) as [c [acc' [Er [Ea [HQ _]]]]].
+             obindn (fun v => v = c) c' Hc'; [apply okT_lift; eauto|]. subst c'.
+             obindn (fun v => v = acc') acc'' Hacc; [apply okT_lift; eauto|]. subst acc''.
+             destruct acc' as [ns' gs']. destruct HQ as [Q1 [Q2 [Q3 [Q4 Q5]]]]. cbn [fst snd] in *.
+             eapply okT_mono.
+             ++ apply IH; auto.
+                ** cbn [length] in *. lia.
+                ** intros _. eapply lo_le; [exact Q5|exact T1].
+                ** eapply lo_le; [exact Q5|]. intros z [<-|Hz]; [lia|]. specialize (T2 _ Hz). lia.
+             ++ intros r [R1 [R2 [R3 [R4 R5]]]]. refine (conj R1 (conj R2 (conj R3 (conj _ _)))).
+                ** eapply incl_tran; eassumption.
+                ** intros u1 u2 [= <-] [= <-] EU. lia.
+          -- (* after the crossing point: the longer parent's gene *)
+             destruct (addB g nt a b ns0 True True Wsp Hctx ns gs x2 I Hx2 Hinv Hp Ha B2) as [c [acc' [Er [Ea [HQ _]]]]].
+             obindn (fun v => v = c) c' Hc'; [apply okT_lift; eauto|]. subst c'.
+             obindn (fun v => v = acc') acc'' Hacc; [apply okT_lift; eauto|]. subst acc''.
+             destruct acc' as [ns' gs']. destruct HQ as [Q1 [Q2 [Q3 [Q4 Q5]]]]. cbn [fst snd] in *.
+             eapply okT_mono.
+             ++ apply IH; auto.
+                ** cbn [length] in *. lia.
+                ** intros CL. lia.
+                ** eapply lo_le; [exact Q5|exact T2].
+             ++ intros r [R1 [R2 [R3 [R4 R5]]]]. refine (conj R1 (conj R2 (conj R3 (conj _ _)))).
+                ** eapply incl_tran; eassumption.
+                ** intros u1 u2 [= <-] [= <-] EU. lia.
+        * (* the longer parent's gene is skipped; with nothing chosen yet the loop ends *)
+          destruct cs.
+          -- eapply okT_mono.
+             ++ apply (IH (x1 :: l1') l2' counter true ns gs s); auto.
+                ** cbn [length] in *. lia.
+                ** intros y z Hy Hz. apply L2; [exact Hy|now right].
+             ++ intros r [R1 [R2 [R3 [R4 R5]]]]. refine (conj R1 (conj R2 (conj R3 (conj R4 _)))).
+                intros u1 u2 [= <-] [= <-] EU. lia.
+          -- apply okT_ret. unfold spQ. cbn [fst snd].
+             refine (conj Hinv (conj Hp (conj Ha (conj (incl_refl _) _)))).
+             intros u1 u2 [= <-] [= <-] EU. lia.
+  Qed.
+
+  (* unrelated first genes: shorter parent's first number larger, nothing chosen yet: the loop ends at once *)
+  Lemma sp_loop_stops fuel x1 l1 x2 l2 counter acc (s : st) :
+    g_innov x2 < g_innov x1 ->
+    singlepoint_loop (S fuel) g a b nt cross (x1 :: l1) (x2 :: l2) counter false acc s = Ok (acc, s).
+  Proof.
+    intros H. cbn [singlepoint_loop].
+    destruct (Z.eqb_spec (g_innov x1) (g_innov x2)) as [?|_]; [lia|].
+    destruct (Z.ltb_spec (g_innov x1) (g_innov x2)) as [?|_]; [lia|]. reflexivity.
+  Qed.
+End SP.
+
+(* ------------------------------------------------------------------------------------------ *)
+(* 11. mateSinglePoint: the whole function                                                      *)
+(* ------------------------------------------------------------------------------------------ *)
+Lemma okT_and {A S} (P Q : A -> Prop) (r : res (A * S)) : okT P r -> okT Q r -> okT (fun a => P a /\ Q a) r.
+Proof. unfold okT. destruct r as [[a s']| | | | |]; auto. Qed.
+
+Definition sp_w (x1 x2 y : gene) : Prop :=
+  g_w y = g_w x1 \/ g_w y = g_w x2 \/ g_w y = fmean (g_w x1) (g_w x2) \/ g_w y = fmean (g_w x2) (g_w x1).
+
+Definition sp_gene (p1 p2 : genome) (y : gene) : Prop :=
+  (exists x, (In x (genes p1) \/ In x (genes p2)) /\ copyof x y) \/
+  (exists x1 x2, In x1 (genes p1) /\ In x2 (genes p2) /\ g_innov x1 = g_innov x2 /\
+                 kin x1 y /\ sp_w x1 x2 y /\ en_weak x1 x2 y).
+
+Lemma prov_sp_gene p1 p2 y : prov p1 p2 True True Wsp y -> sp_gene p1 p2 y.
+Proof.
+  intros [[x [Hx [_ Hc]]]|[[x [Hx [_ Hc]]]|[x1 [x2 [H1 [H2 [E [K [Hw He]]]]]]]]].
+  - left. exists x. auto.
+  - left. exists x. auto.
+  - right. exists x1, x2. repeat split; auto; try apply K. unfold sp_w. tauto.
+Qed.
+
+Lemma kin_swap p1 p2 x1 x2 y :
+  consistent p1 p2 -> In x1 (genes p1) -> In x2 (genes p2) -> g_innov x1 = g_innov x2 -> kin x2 y -> kin x1 y.
+Proof.
+  intros Hc H1 H2 E [K1 [K2 [K3 K4]]]. specialize (Hc x1 x2 H1 H2 E). apply same_link_iff in Hc.
+  destruct Hc as [S1 [S2 S3]]. unfold kin. repeat split; congruence.
+Qed.
+
+Lemma prov_sp_gene_swap p1 p2 y : consistent p1 p2 -> prov p2 p1 True True Wsp y -> sp_gene p1 p2 y.
+Proof.
+  intros Hcons [[x [Hx [_ Hc]]]|[[x [Hx [_ Hc]]]|[x2 [x1 [H2 [H1 [E [K [Hw He]]]]]]]]].
+  - left. exists x. auto.
+  - left. exists x. auto.
+  - right. exists x1, x2. symmetry in E. split; [exact H1|]. split; [exact H2|]. split; [exact E|].
+    split; [eapply kin_swap; eassumption|]. split.
+    + unfold sp_w. tauto.
+    + intros E1 E2. now apply He.
+Qed.
+
+Lemma nsrc_swap A B n : nsrc A B n -> nsrc B A n.
+Proof. intros [m [[H|H] E]]; exists m; (split; [|exact E]); [now right|now left]. Qed.
+
+Definition shorter (p1 p2 : genome) : genome :=
+  if Nat.ltb (length (genes p1)) (length (genes p2)) then p1 else p2.
+Definition longer (p1 p2 : genome) : genome :=
+  if Nat.ltb (length (genes p1)) (length (genes p2)) then p2 else p1.
+
+Definition sp_post (p1 p2 : genome) (c : genome) : Prop :=
+  modules c = [] /\
+  traits c = mean_traits p1 p2 /\
+  asc g_innov (genes c) /\
+  (forall y, In y (genes c) -> sp_gene p1 p2 y) /\
+  asc n_id (nodes c) /\
+  (forall id, In id (map n_id (nodes c)) <-> In id (io_ids p2) \/ touched (genes c) id) /\
+  (forall n, In n (nodes c) -> nsrc p1 p2 n) /\
+  (forall m, In m (nodes p2) -> is_io m = true -> exists n, In n (nodes c) /\ same_node m n) /\
+  (forall x1 x2, hd_error (genes p1) = Some x1 -> hd_error (genes p2) = Some x2 -> g_innov x1 = g_innov x2 ->
+                 exists y, In y (genes c) /\ kin x1 y /\ sp_w x1 x2 y /\ en_weak x1 x2 y) /\
+  (forall x1 x2, hd_error (genes (shorter p1 p2)) = Some x1 -> hd_error (genes (longer p1 p2)) = Some x2 ->
+                 g_innov x2 < g_innov x1 -> genes c = []) /\
+  link_inj (genes c) /\
+  (forall y, In y (genes c) -> gtr_ok (traits c) y) /\
+  (forall n, In n (nodes c) -> ntr_ok (traits c) n).
+
+Lemma hyps_ctx_swap p1 p2 : mate_hyps p1 p2 -> ctx_ok p1 (mean_traits p1 p2) p2 p1.
+Proof.
+  intros H. constructor.
+  - apply (mh_traits _ _ H).
+  - apply mean_traits_length, (mh_traits _ _ H).
+  - apply (mh_p2 _ _ H).
+  - apply (mh_p1 _ _ H).
+  - apply consistent_sym, (mh_cons _ _ H).
+Qed.
+
+Lemma zlen_pos {A} (l : list A) : l <> [] -> 0 < zlen l.
+Proof. destruct l; [congruence|]. intros _. unfold zlen. cbn [length]. lia. Qed.
+
+Theorem sp_ok p1 p2 id s :
+  mate_hyps p1 p2 -> genes p1 <> [] -> genes p2 <> [] ->
+  okT (sp_post p1 p2) (mate_singlepoint p1 p2 id s).
+Proof.
+  intros H G1 G2. unfold mate_singlepoint.
+  pose proof (mh_traits _ _ H) as [Hne HF].
+  rewrite (Forall2_length' _ _ _ HF), Nat.eqb_refl. cbn [negb].
+  rewrite (po_mod _ _ (mh_p1 _ _ H)), (po_mod _ _ (mh_p2 _ _ H)).
+  rewrite (mate_traits_ok _ _ HF). fold (mean_traits p1 p2).
+  obindn (fun v => v = mean_traits p1 p2) nt Hnt; [apply okT_lift; eauto|]. subst nt.
+  destruct (hyps_io p1 p2 H) as [ns0 [E0 [Hs0 [Hsrc0 [Hall0 Htr0]]]]]. rewrite E0.
+  obindn (fun v => v = ns0) ns0' Hns0; [apply okT_lift; eauto|]. subst ns0'.
+  pose proof (po_asc _ _ (mh_p1 _ _ H)) as A1. pose proof (po_asc _ _ (mh_p2 _ _ H)) as A2.
+  unfold sp_post, shorter, longer.
+  destruct (Nat.ltb (length (genes p1)) (length (genes p2))) eqn:Elt.
+  - pose proof (hyps_ctx p1 p2 H) as Hctx.
+    obindn (fun _ : Z => True) cross Hcross; [apply okT_intn, zlen_pos, G1|].
+    obindn (fun r => spQ p1 p2 (mean_traits p1 p2) ns0 [] (genes p1) (genes p2) r /\
+                     (forall x1 x2, hd_error (genes p1) = Some x1 -> hd_error (genes p2) = Some x2 ->
+                                    g_innov x2 < g_innov x1 -> r = (ns0, []))) r Hr.
+    { match goal with |- okT _ (singlepoint_loop ?f _ _ _ _ _ _ _ _ _ _ ?s) =>
+        assert (HL : okT (spQ p1 p2 (mean_traits p1 p2) ns0 [] (genes p1) (genes p2))
+                         (singlepoint_loop f p1 p1 p2 (mean_traits p1 p2) cross (genes p1) (genes p2) 0 false (ns0, []) s))
+      end.
+      { apply sp_loop;
+          [exact Hctx | lia | exact A1 | exact A2 | apply incl_refl | apply incl_refl | now apply ninv_start
+           | intros ? [] | apply asc_nil | intros _ ? ? [] | intros ? ? []]. }
+      apply okT_and; [exact HL|].
+      destruct (genes p1) as [|x1 l1] eqn:EG1; [congruence|]. destruct (genes p2) as [|x2 l2] eqn:EG2; [congruence|].
+      destruct (Z.ltb_spec (g_innov x2) (g_innov x1)) as [LT|GE].
+      + rewrite sp_loop_stops by exact LT. intros u1 u2 _ _ _. reflexivity.
+      + eapply okT_mono; [exact HL|]. intros r _ u1 u2 [= <-] [= <-] LT. lia. }
+    apply okT_ret. destruct Hr as [[R1 [R2 [R3 [_ R5]]]] R6].
+    destruct (nodes_post (mean_traits p1 p2) p1 p2 p2 ns0 (fst r) (snd r)) as [N1 [N2 [N3 N4]]]; auto.
+    { intros n Hn. now right. }
+    cbn [modules traits genes nodes].
+    split; [reflexivity|]. split; [reflexivity|]. split; [exact R3|].
+    split; [intros y Hy; apply prov_sp_gene, R2, Hy|].
+    split; [exact N1|]. split; [exact N2|]. split; [exact N3|]. split; [exact N4|]. split.
+    + intros x1 x2 E1 E2 E. destruct (R5 x1 x2 E1 E2 E) as [y [Hy [K [Hw He]]]].
+      exists y. split; [exact Hy|]. split; [exact K|]. split; [unfold sp_w; tauto|exact He].
+    + split; [intros x1 x2 E1 E2 LT; now rewrite (R6 x1 x2 E1 E2 LT)|].
+      split; [apply (ni_linj _ _ _ _ _ _ R1)|]. split; [apply (ni_gtr _ _ _ _ _ _ R1)|apply (ni_ntr _ _ _ _ _ _ R1)].
+  - pose proof (hyps_ctx_swap p1 p2 H) as Hctx.
+    obindn (fun _ : Z => True) cross Hcross; [apply okT_intn, zlen_pos, G2|].
+    obindn (fun r => spQ p2 p1 (mean_traits p1 p2) ns0 [] (genes p2) (genes p1) r /\
+                     (forall x1 x2, hd_error (genes p2) = Some x1 -> hd_error (genes p1) = Some x2 ->
+                                    g_innov x2 < g_innov x1 -> r = (ns0, []))) r Hr.
+    { match goal with |- okT _ (singlepoint_loop ?f _ _ _ _ _ _ _ _ _ _ ?s) =>
+        assert (HL : okT (spQ p2 p1 (mean_traits p1 p2) ns0 [] (genes p2) (genes p1))
+                         (singlepoint_loop f p1 p2 p1 (mean_traits p1 p2) cross (genes p2) (genes p1) 0 false (ns0, []) s))
+      end.
+      { apply sp_loop;
+          [exact Hctx | lia | exact A2 | exact A1 | apply incl_refl | apply incl_refl | now apply ninv_start
+           | intros ? [] | apply asc_nil | intros _ ? ? [] | intros ? ? []]. }
+      apply okT_and; [exact HL|].
+      destruct (genes p1) as [|x1 l1] eqn:EG1; [congruence|]. destruct (genes p2) as [|x2 l2] eqn:EG2; [congruence|].
+      destruct (Z.ltb_spec (g_innov x1) (g_innov x2)) as [LT|GE].
+      + rewrite sp_loop_stops by exact LT. intros u1 u2 _ _ _. reflexivity.
+      + eapply okT_mono; [exact HL|]. intros r _ u1 u2 [= <-] [= <-] LT. lia. }
+    apply okT_ret. destruct Hr as [[R1 [R2 [R3 [_ R5]]]] R6].
+    destruct (nodes_post (mean_traits p1 p2) p2 p1 p2 ns0 (fst r) (snd r)) as [N1 [N2 [N3 N4]]]; auto.
+    { intros n Hn. now left. }
+    cbn [modules traits genes nodes].
+    split; [reflexivity|]. split; [reflexivity|]. split; [exact R3|].
+    split; [intros y Hy; apply prov_sp_gene_swap; [apply (mh_cons _ _ H)|apply R2, Hy]|].
+    split; [exact N1|]. split; [exact N2|]. split; [intros n Hn; apply nsrc_swap, N3, Hn|]. split; [exact N4|]. split.
+    + intros x1 x2 E1 E2 E. symmetry in E. destruct (R5 x2 x1 E2 E1 E) as [y [Hy [K [Hw He]]]].
+      exists y. split; [exact Hy|]. symmetry in E. split.
+      * apply (kin_swap p1 p2 x1 x2 y (mh_cons _ _ H)); auto.
+        -- destruct (genes p1); [discriminate|]. injection E1 as <-. now left.
+        -- destruct (genes p2); [discriminate|]. injection E2 as <-. now left.
+      * split; [unfold sp_w; tauto|]. intros F1 F2. now apply He.
+    + split; [intros x1 x2 E1 E2 LT; now rewrite (R6 x1 x2 E1 E2 LT)|].
+      split; [apply (ni_linj _ _ _ _ _ _ R1)|]. split; [apply (ni_gtr _ _ _ _ _ _ R1)|apply (ni_ntr _ _ _ _ _ _ R1)].
+Qed.
+
+(* ------------------------------------------------------------------------------------------ *)
+(* 12. the clauses of C04, in the form props/C04.v states them                                  *)
+(* ------------------------------------------------------------------------------------------ *)
+Definition innovs (p : genome) : list Z := map g_innov (genes p).
+
+Lemma in_innovs p x : In x (genes p) -> In (g_innov x) (innovs p).
+Proof. intros H. unfold innovs. now apply in_map. Qed.
+
+Lemma mp_gene_cases avg p1 p2 f1 f2 c :
+  mate_hyps p1 p2 -> mp_post avg p1 p2 f1 f2 c -> forall y, In y (genes c) ->
+  (exists x, In x (genes p1) /\ ~ In (g_innov y) (innovs p2) /\ p1_better f1 f2 p1 p2 = true /\ copyof x y) \/
+  (exists x, In x (genes p2) /\ ~ In (g_innov y) (innovs p1) /\ p1_better f1 f2 p1 p2 = false /\ copyof x y) \/
+  (exists x1 x2, In x1 (genes p1) /\ In x2 (genes p2) /\ g_innov x1 = g_innov x2 /\ kin x1 y /\ Wmp avg x1 x2 y).
+Proof.
+  intros H [_ [_ [Hasc [Hprov [Hmat _]]]]] y Hy. cbv zeta in *.
+  destruct (Hprov y Hy) as [[x [Hx [Hb Hc]]]|[[x [Hx [Hb Hc]]]|Hm]]; [| |right; right; exact Hm].
+  - destruct (in_dec Z.eq_dec (g_innov y) (innovs p2)) as [Hin|Hnin].
+    + right. right. unfold innovs in Hin. apply in_map_iff in Hin. destruct Hin as [x2 [E2 H2]].
+      destruct Hc as [[K1 K] _]. assert (E : g_innov x = g_innov x2) by congruence.
+      destruct (Hmat x x2 Hx H2 E) as [y' [Hy' [K' W']]].
+      assert (y' = y) by (apply (asc_inj g_innov (genes c)); auto; destruct K'; congruence). subst y'.
+      exists x, x2. auto.
+    + left. exists x. auto.
+  - destruct (in_dec Z.eq_dec (g_innov y) (innovs p1)) as [Hin|Hnin].
+    + right. right. unfold innovs in Hin. apply in_map_iff in Hin. destruct Hin as [x1 [E1 H1]].
+      destruct Hc as [[K1 K] _]. assert (E : g_innov x1 = g_innov x) by congruence.
+      destruct (Hmat x1 x H1 Hx E) as [y' [Hy' [K' W']]].
+      assert (y' = y) by (apply (asc_inj g_innov (genes c)); auto; destruct K'; congruence). subst y'.
+      exists x1, x. auto.
+    + right. left. exists x. auto.
+Qed.
+
+Section Clauses.
+  Variables (avg : bool) (p1 p2 : genome) (id : Z) (f1 f2 : float) (s s' : st) (c : genome).
+  Hypothesis H : mate_hyps p1 p2.
+  Hypothesis Hrun : mate_multipoint_gen avg p1 p2 id f1 f2 s = Ok (c, s').
+
+  Lemma mp_post_holds : mp_post avg p1 p2 f1 f2 c.
+  Proof. exact (okT_Ok _ _ _ _ (mp_ok avg p1 p2 id f1 f2 s H) Hrun). Qed.
+
+  Let A1 := po_asc _ _ (mh_p1 _ _ H).
+  Let A2 := po_asc _ _ (mh_p2 _ _ H).
+
+  (* (a) *)
+  Lemma mp_gene_origin :
+    StronglySorted Z.lt (map g_innov (genes c)) /\
+    (forall y, In y (genes c) ->
+       exists x, (In x (genes p1) \/ In x (genes p2)) /\
+                 g_innov y = g_innov x /\ g_in y = g_in x /\ g_out y = g_out x /\ g_rec y = g_rec x) /\
+    (forall y y', In y (genes c) -> In y' (genes c) -> same_link y y' = true -> y = y').
+  Proof.
+    pose proof mp_post_holds as P. pose proof (mp_gene_cases _ _ _ _ _ _ H P) as HC.
+    destruct P as [_ [_ [Hasc [_ [_ [_ [_ [_ [_ [_ [_ [Hlinj _]]]]]]]]]]]].
+    split; [exact Hasc|]. split.
+    - intros y Hy. destruct (HC y Hy) as [[x [Hx [_ [_ [K _]]]]]|[[x [Hx [_ [_ [K _]]]]]|[x1 [x2 [Hx [_ [_ [K _]]]]]]]];
+        [exists x|exists x|exists x1]; (split; [auto|exact K]).
+    - intros y y' Hy Hy' Hl. apply (asc_inj g_innov (genes c)); auto.
+  Qed.
+
+  (* (b) *)
+  Lemma mp_weight_plain :
+    avg = false ->
+    forall y, In y (genes c) ->
+      exists x, (In x (genes p1) \/ In x (genes p2)) /\ g_innov x = g_innov y /\ g_w y = g_w x.
+  Proof.
+    intros Eavg y Hy. pose proof (mp_gene_cases _ _ _ _ _ _ H mp_post_holds y Hy) as HC. subst avg.
+    destruct HC as [[x [Hx [_ [_ [[K _] [Hw _]]]]]]|[[x [Hx [_ [_ [[K _] [Hw _]]]]]]|[x1 [x2 [Hx1 [Hx2 [E [[K _] [[Hw|Hw] _]]]]]]]]].
+    - exists x. auto.
+    - exists x. auto.
+    - exists x1. auto.
+    - exists x2. repeat split; auto. congruence.
+  Qed.
+
+  Lemma mp_weight_avg :
+    avg = true ->
+    forall y, In y (genes c) ->
+      (forall x1 x2, In x1 (genes p1) -> In x2 (genes p2) -> g_innov x1 = g_innov y -> g_innov x2 = g_innov y ->
+                     g_w y = PrimFloat.div (PrimFloat.add (g_w x1) (g_w x2)) 2%float) /\
+      (~ In (g_innov y) (innovs p1) \/ ~ In (g_innov y) (innovs p2) ->
+       exists x, (In x (genes p1) \/ In x (genes p2)) /\ g_innov x = g_innov y /\ g_w y = g_w x).
+  Proof.
+    intros Eavg y Hy. pose proof (mp_gene_cases _ _ _ _ _ _ H mp_post_holds y Hy) as HC. subst avg.
+    destruct HC as [[x [Hx [Hn [_ [[K _] [Hw _]]]]]]|[[x [Hx [Hn [_ [[K _] [Hw _]]]]]]|[x1 [x2 [Hx1 [Hx2 [E [[K _] [Hw _]]]]]]]]].
+    - split; [|intros _; exists x; auto]. intros u1 u2 _ U2 _ E2. exfalso. apply Hn. rewrite <- E2. now apply in_innovs.
+    - split; [|intros _; exists x; auto]. intros u1 u2 U1 _ E1 _. exfalso. apply Hn. rewrite <- E1. now apply in_innovs.
+    - split.
+      + intros u1 u2 U1 U2 E1 E2.
+        assert (u1 = x1) by (apply (asc_inj g_innov (genes p1)); auto; congruence).
+        assert (u2 = x2) by (apply (asc_inj g_innov (genes p2)); auto; congruence). subst. exact Hw.
+      + intros [Hn|Hn]; exfalso; apply Hn; [rewrite K|rewrite K, E]; now apply in_innovs.
+  Qed.
+
+  (* (c) *)
+  Lemma mp_fitter_only :
+    forall y, In y (genes c) ->
+      (In (g_innov y) (innovs p1) -> ~ In (g_innov y) (innovs p2) -> p1_better f1 f2 p1 p2 = true) /\
+      (In (g_innov y) (innovs p2) -> ~ In (g_innov y) (innovs p1) -> p1_better f1 f2 p1 p2 = false).
+  Proof.
+    intros y Hy. pose proof (mp_gene_cases _ _ _ _ _ _ H mp_post_holds y Hy) as HC.
+    destruct HC as [[x [Hx [Hn [Hb [[K _] _]]]]]|[[x [Hx [Hn [Hb [[K _] _]]]]]|[x1 [x2 [Hx1 [Hx2 [E [[K _] _]]]]]]]].
+    - split; [auto|]. intros _ Hn1. exfalso. apply Hn1. rewrite K. now apply in_innovs.
+    - split; [|auto]. intros _ Hn2. exfalso. apply Hn2. rewrite K. now apply in_innovs.
+    - split; intros _ Hn; exfalso; apply Hn; [rewrite K, E|rewrite K]; now apply in_innovs.
+  Qed.
+
+  (* (d), and: every gene of the fitter parent is inherited *)
+  Lemma mp_matching_inherited :
+    forall x1 x2, In x1 (genes p1) -> In x2 (genes p2) -> g_innov x1 = g_innov x2 ->
+      exists y, In y (genes c) /\ g_innov y = g_innov x1 /\ g_in y = g_in x1 /\ g_out y = g_out x1 /\ g_rec y = g_rec x1.
+  Proof.
+    intros x1 x2 H1 H2 E. destruct mp_post_holds as [_ [_ [_ [_ [Hmat _]]]]].
+    destruct (Hmat x1 x2 H1 H2 E) as [y [Hy [K _]]]. exists y. split; [exact Hy|exact K].
+  Qed.
+
+  Lemma mp_fitter_all :
+    (p1_better f1 f2 p1 p2 = true ->
+     forall x, In x (genes p1) ->
+       exists y, In y (genes c) /\ g_innov y = g_innov x /\ g_in y = g_in x /\ g_out y = g_out x /\ g_rec y = g_rec x) /\
+    (p1_better f1 f2 p1 p2 = false ->
+     forall x, In x (genes p2) ->
+       exists y, In y (genes c) /\ g_innov y = g_innov x /\ g_in y = g_in x /\ g_out y = g_out x /\ g_rec y = g_rec x).
+  Proof.
+    destruct mp_post_holds as [_ [_ [_ [_ [_ [_ [_ [_ [_ [F1 [F2 _]]]]]]]]]]]. cbv zeta in *.
+    split; intros Hb x Hx; [destruct (F1 Hb x Hx) as [y [Hy K]]|destruct (F2 Hb x Hx) as [y [Hy K]]];
+      exists y; (split; [exact Hy|exact K]).
+  Qed.
+
+  (* (e) *)
+  Lemma mp_enabled :
+    forall y, In y (genes c) ->
+      ((forall x, In x (genes p1) \/ In x (genes p2) -> g_innov x = g_innov y -> g_en x = true) -> g_en y = true) /\
+      (forall x, In x (genes p1) -> g_innov x = g_innov y -> ~ In (g_innov y) (innovs p2) -> g_en x = false -> g_en y = false) /\
+      (forall x, In x (genes p2) -> g_innov x = g_innov y -> ~ In (g_innov y) (innovs p1) -> g_en x = false -> g_en y = false) /\
+      (forall x, In x (genes p1) -> g_innov x = g_innov y -> g_en x = false -> g_en y = false).
+  Proof.
+    intros y Hy. pose proof (mp_gene_cases _ _ _ _ _ _ H mp_post_holds y Hy) as HC.
+    destruct HC as [[x [Hx [Hn [_ [[K _] [_ He]]]]]]|[[x [Hx [Hn [_ [[K _] [_ He]]]]]]|[x1 [x2 [Hx1 [Hx2 [E [[K _] [_ [He1 He2]]]]]]]]]].
+    - assert (U : forall u, In u (genes p1) -> g_innov u = g_innov y -> u = x).
+      { intros u Hu Eu. apply (asc_inj g_innov (genes p1)); auto; congruence. }
+      split; [intros Hall; rewrite He; apply Hall; auto|]. split; [|split].
+      + intros u Hu Eu _ Ed. rewrite (U u Hu Eu) in Ed. congruence.
+      + intros u Hu Eu _ _. exfalso. apply Hn. rewrite <- Eu. now apply in_innovs.
+      + intros u Hu Eu Ed. rewrite (U u Hu Eu) in Ed. congruence.
+    - assert (U : forall u, In u (genes p2) -> g_innov u = g_innov y -> u = x).
+      { intros u Hu Eu. apply (asc_inj g_innov (genes p2)); auto; congruence. }
+      split; [intros Hall; rewrite He; apply Hall; auto|]. split; [|split].
+      + intros u Hu Eu _ _. exfalso. apply Hn. rewrite <- Eu. now apply in_innovs.
+      + intros u Hu Eu _ Ed. rewrite (U u Hu Eu) in Ed. congruence.
+      + intros u Hu Eu _. exfalso. apply Hn. rewrite <- Eu. now apply in_innovs.
+    - assert (U : forall u, In u (genes p1) -> g_innov u = g_innov y -> u = x1).
+      { intros u Hu Eu. apply (asc_inj g_innov (genes p1)); auto; congruence. }
+      split; [intros Hall; apply He1; apply Hall; auto; congruence|]. split; [|split].
+      + intros u Hu Eu Hn _. exfalso. apply Hn. rewrite K, E. now apply in_innovs.
+      + intros u Hu Eu Hn _. exfalso. apply Hn. rewrite K. now apply in_innovs.
+      + intros u Hu Eu Ed. rewrite (U u Hu Eu) in Ed. now apply He2.
+  Qed.
+
+  (* (f) *)
+  Lemma mp_nodes :
+    StronglySorted Z.lt (map n_id (nodes c)) /\
+    (forall i, In i (map n_id (nodes c)) <->
+               In i (io_ids p2) \/ exists y, In y (genes c) /\ (i = g_in y \/ i = g_out y)) /\
+    (forall n, In n (nodes c) ->
+       exists m, (In m (nodes p1) \/ In m (nodes p2)) /\ n_id m = n_id n /\ n_type m = n_type n /\ n_act m = n_act n) /\
+    (forall m, In m (nodes p2) -> is_io m = true ->
+       exists n, In n (nodes c) /\ n_id m = n_id n /\ n_type m = n_type n /\ n_act m = n_act n).
+  Proof.
+    destruct mp_post_holds as [_ [_ [_ [_ [_ [N1 [N2 [N3 [N4 _]]]]]]]]]. auto.
+  Qed.
+
+  (* (g) *)
+  Lemma mp_traits :
+    traits c = map (fun ab => trait_mean (fst ab) (snd ab)) (combine (traits p1) (traits p2)) /\
+    length (traits c) = length (traits p1) /\
+    map t_id (traits c) = map t_id (traits p1) /\
+    modules c = [].
+  Proof.
+    destruct mp_post_holds as [M [T _]]. split; [exact T|]. split; [|split; [|exact M]].
+    - rewrite T. apply (mean_traits_length _ _ (mh_traits _ _ H)).
+    - rewrite T. destruct (mh_traits _ _ H) as [_ HF]. unfold mean_traits. clear - HF.
+      induction HF as [|a b ta tb _ _ IH]; [reflexivity|]. cbn. now rewrite IH.
+  Qed.
+End Clauses.
+
+Lemma mp_total avg p1 p2 id f1 f2 s :
+  mate_hyps p1 p2 ->
+  (exists c s', mate_multipoint_gen avg p1 p2 id f1 f2 s = Ok (c, s')) \/
+  mate_multipoint_gen avg p1 p2 id f1 f2 s = OutOfTape.
+Proof. intros H. exact (okT_total _ _ (mp_ok avg p1 p2 id f1 f2 s H)). Qed.
+
+Section ClausesSP.
+  Variables (p1 p2 : genome) (id : Z) (s s' : st) (c : genome).
+  Hypothesis H : mate_hyps p1 p2.
+  Hypothesis G1 : genes p1 <> [].
+  Hypothesis G2 : genes p2 <> [].
+  Hypothesis Hrun : mate_singlepoint p1 p2 id s = Ok (c, s').
+
+  Lemma sp_post_holds : sp_post p1 p2 c.
+  Proof. exact (okT_Ok _ _ _ _ (sp_ok p1 p2 id s H G1 G2) Hrun). Qed.
+
+  Let A1 := po_asc _ _ (mh_p1 _ _ H).
+  Let A2 := po_asc _ _ (mh_p2 _ _ H).
+
+  Lemma sp_gene_origin :
+    StronglySorted Z.lt (map g_innov (genes c)) /\
+    (forall y, In y (genes c) ->
+       exists x, (In x (genes p1) \/ In x (genes p2)) /\
+                 g_innov y = g_innov x /\ g_in y = g_in x /\ g_out y = g_out x /\ g_rec y = g_rec x) /\
+    (forall y y', In y (genes c) -> In y' (genes c) -> same_link y y' = true -> y = y').
+  Proof.
+    destruct sp_post_holds as [_ [_ [Hasc [HG [_ [_ [_ [_ [_ [_ [Hlinj _]]]]]]]]]]].
+    split; [exact Hasc|]. split.
+    - intros y Hy. destruct (HG y Hy) as [[x [Hx [K _]]]|[x1 [x2 [Hx [_ [_ [K _]]]]]]]; [exists x|exists x1]; auto.
+    - intros y y' Hy Hy' Hl. apply (asc_inj g_innov (genes c)); auto.
+  Qed.
+
+  Lemma sp_weight :
+    forall y, In y (genes c) ->
+      (exists x, (In x (genes p1) \/ In x (genes p2)) /\ g_innov x = g_innov y /\ g_w y = g_w x) \/
+      (exists x1 x2, In x1 (genes p1) /\ In x2 (genes p2) /\ g_innov x1 = g_innov y /\ g_innov x2 = g_innov y /\
+                     (g_w y = PrimFloat.div (PrimFloat.add (g_w x1) (g_w x2)) 2%float \/
+                      g_w y = PrimFloat.div (PrimFloat.add (g_w x2) (g_w x1)) 2%float)).
+  Proof.
+    intros y Hy. destruct sp_post_holds as [_ [_ [_ [HG _]]]].
+    destruct (HG y Hy) as [[x [Hx [[K _] [Hw _]]]]|[x1 [x2 [Hx1 [Hx2 [E [[K _] [[Hw|[Hw|[Hw|Hw]]] _]]]]]]]].
+    - left. exists x. auto.
+    - left. exists x1. auto.
+    - left. exists x2. repeat split; auto. congruence.
+    - right. exists x1, x2. repeat split; auto; congruence.
+    - right. exists x1, x2. repeat split; auto; congruence.
+  Qed.
+
+  Lemma sp_enabled :
+    forall y, In y (genes c) ->
+      ((forall x, In x (genes p1) \/ In x (genes p2) -> g_innov x = g_innov y -> g_en x = true) -> g_en y = true) /\
+      (forall x, In x (genes p1) -> g_innov x = g_innov y -> ~ In (g_innov y) (innovs p2) -> g_en x = false -> g_en y = false) /\
+      (forall x, In x (genes p2) -> g_innov x = g_innov y -> ~ In (g_innov y) (innovs p1) -> g_en x = false -> g_en y = false).
+  Proof.
+    intros y Hy. destruct sp_post_holds as [_ [_ [_ [HG _]]]].
+    destruct (HG y Hy) as [[x [Hx [[K _] [_ He]]]]|[x1 [x2 [Hx1 [Hx2 [E [[K _] [_ He]]]]]]]].
+    - split; [intros Hall; rewrite He; apply Hall; auto|]. split.
+      + intros u Hu Eu Hn Ed. destruct Hx as [Hx|Hx].
+        * assert (u = x) by (apply (asc_inj g_innov (genes p1)); auto; congruence). congruence.
+        * exfalso. apply Hn. rewrite K. now apply in_innovs.
+      + intros u Hu Eu Hn Ed. destruct Hx as [Hx|Hx].
+        * exfalso. apply Hn. rewrite K. now apply in_innovs.
+        * assert (u = x) by (apply (asc_inj g_innov (genes p2)); auto; congruence). congruence.
+    - split; [intros Hall; apply He; apply Hall; auto; congruence|]. split.
+      + intros u Hu Eu Hn _. exfalso. apply Hn. rewrite K, E. now apply in_innovs.
+      + intros u Hu Eu Hn _. exfalso. apply Hn. rewrite K. now apply in_innovs.
+  Qed.
+
+  Lemma sp_nodes :
+    StronglySorted Z.lt (map n_id (nodes c)) /\
+    (forall i, In i (map n_id (nodes c)) <->
+               In i (io_ids p2) \/ exists y, In y (genes c) /\ (i = g_in y \/ i = g_out y)) /\
+    (forall n, In n (nodes c) ->
+       exists m, (In m (nodes p1) \/ In m (nodes p2)) /\ n_id m = n_id n /\ n_type m = n_type n /\ n_act m = n_act n) /\
+    (forall m, In m (nodes p2) -> is_io m = true ->
+       exists n, In n (nodes c) /\ n_id m = n_id n /\ n_type m = n_type n /\ n_act m = n_act n).
+  Proof.
+    destruct sp_post_holds as [_ [_ [_ [_ [N1 [N2 [N3 [N4 _]]]]]]]]. auto.
+  Qed.
+
+  Lemma sp_traits :
+    traits c = map (fun ab => trait_mean (fst ab) (snd ab)) (combine (traits p1) (traits p2)) /\
+    length (traits c) = length (traits p1) /\
+    map t_id (traits c) = map t_id (traits p1) /\
+    modules c = [].
+  Proof.
+    destruct sp_post_holds as [M [T _]]. split; [exact T|]. split; [|split; [|exact M]].
+    - rewrite T. apply (mean_traits_length _ _ (mh_traits _ _ H)).
+    - rewrite T. destruct (mh_traits _ _ H) as [_ HF]. unfold mean_traits. clear - HF.
+      induction HF as [|a b ta tb _ _ IH]; [reflexivity|]. cbn. now rewrite IH.
+  Qed.
+
+  (* common ancestry: both parents start with the same innovation number: the child is not empty *)
+  Lemma sp_nonempty :
+    forall x1 x2, hd_error (genes p1) = Some x1 -> hd_error (genes p2) = Some x2 -> g_innov x1 = g_innov x2 ->
+      exists y, In y (genes c) /\ g_innov y = g_innov x1 /\ g_in y = g_in x1 /\ g_out y = g_out x1 /\ g_rec y = g_rec x1.
+  Proof.
+    intros x1 x2 E1 E2 E. destruct sp_post_holds as [_ [_ [_ [_ [_ [_ [_ [_ [HN _]]]]]]]]].
+    destruct (HN x1 x2 E1 E2 E) as [y [Hy [K _]]]. exists y. split; [exact Hy|exact K].
+  Qed.
+
+  (* unrelated parents: the first number of the parent with fewer genes (the second parent on a tie) is the
+     larger one: the loop ends at once and the child has no genes *)
+  Lemma sp_unrelated_empty :
+    forall x1 x2,
+      hd_error (genes (if Nat.ltb (length (genes p1)) (length (genes p2)) then p1 else p2)) = Some x1 ->
+      hd_error (genes (if Nat.ltb (length (genes p1)) (length (genes p2)) then p2 else p1)) = Some x2 ->
+      g_innov x2 < g_innov x1 -> genes c = [].
+  Proof.
+    destruct sp_post_holds as [_ [_ [_ [_ [_ [_ [_ [_ [_ [HU _]]]]]]]]]]. exact HU.
+  Qed.
+End ClausesSP.
+
+Lemma sp_total p1 p2 id s :
+  mate_hyps p1 p2 -> genes p1 <> [] -> genes p2 <> [] ->
+  (exists c s', mate_singlepoint p1 p2 id s = Ok (c, s')) \/ mate_singlepoint p1 p2 id s = OutOfTape.
+Proof. intros H G1 G2. exact (okT_total _ _ (sp_ok p1 p2 id s H G1 G2)). Qed.
